@@ -7,50 +7,50 @@ open ImathVerif
 
 /-- extracted from the C++ template at T = Sym; 1 path(s) -/
 def Euler.M44_setEulerAngles {α : Type} [Add α] [Mul α] [Neg α] [OfNat α 0] [OfNat α 1] (sin : α → α) (cos : α → α) (r : V3 α) : (M44 α) :=
-  let t8610 := (cos r.z)
-  let t8611 := (cos r.y)
-  let t8612 := (cos r.x)
-  let t8613 := (sin r.z)
-  let t8614 := (sin r.y)
-  let t8615 := (sin r.x)
-  let t8619 := (t8610 * t8614)
-  let t8624 := (t8613 * t8614)
-  ⟨(t8610 * t8611), (t8613 * t8611), (-t8614), (0 : α), (((-t8613) * t8612) + (t8619 * t8615)), ((t8610 * t8612) + (t8624 * t8615)), (t8611 * t8615), (0 : α), ((t8613 * t8615) + (t8619 * t8612)), (((-t8610) * t8615) + (t8624 * t8612)), (t8611 * t8612), (0 : α), (0 : α), (0 : α), (0 : α), (1 : α)⟩
+  let t8608 := (cos r.z)
+  let t8609 := (cos r.y)
+  let t8610 := (cos r.x)
+  let t8611 := (sin r.z)
+  let t8612 := (sin r.y)
+  let t8613 := (sin r.x)
+  let t8617 := (t8608 * t8612)
+  let t8622 := (t8611 * t8612)
+  ⟨(t8608 * t8609), (t8611 * t8609), (-t8612), (0 : α), (((-t8611) * t8610) + (t8617 * t8613)), ((t8608 * t8610) + (t8622 * t8613)), (t8609 * t8613), (0 : α), ((t8611 * t8613) + (t8617 * t8610)), (((-t8608) * t8613) + (t8622 * t8610)), (t8609 * t8610), (0 : α), (0 : α), (0 : α), (0 : α), (1 : α)⟩
 
 /-- extracted from the C++ template at T = Sym; 1 path(s) -/
 def Euler.M44_rotate {α : Type} [Add α] [Mul α] [Neg α] (sin : α → α) (cos : α → α) (m : M44 α) (r : V3 α) : (M44 α) :=
-  let t8610 := (cos r.z)
-  let t8611 := (cos r.y)
-  let t8612 := (cos r.x)
-  let t8613 := (sin r.z)
-  let t8614 := (sin r.y)
-  let t8615 := (sin r.x)
-  let t8616 := (t8610 * t8611)
-  let t8617 := (t8613 * t8611)
-  let t8618 := (-t8614)
-  let t8619 := (t8610 * t8614)
-  let t8621 := (-t8613)
-  let t8623 := ((t8621 * t8612) + (t8619 * t8615))
-  let t8624 := (t8613 * t8614)
-  let t8627 := ((t8610 * t8612) + (t8624 * t8615))
-  let t8628 := (t8611 * t8615)
-  let t8636 := (t8611 * t8612)
-  let t8637 := (-t8615)
-  let t8639 := ((t8621 * t8637) + (t8619 * t8612))
-  let t8641 := ((t8610 * t8637) + (t8624 * t8612))
-  ⟨(((m.x00 * t8616) + (m.x10 * t8617)) + (m.x20 * t8618)), (((m.x01 * t8616) + (m.x11 * t8617)) + (m.x21 * t8618)), (((m.x02 * t8616) + (m.x12 * t8617)) + (m.x22 * t8618)), (((m.x03 * t8616) + (m.x13 * t8617)) + (m.x23 * t8618)), (((m.x00 * t8623) + (m.x10 * t8627)) + (m.x20 * t8628)), (((m.x01 * t8623) + (m.x11 * t8627)) + (m.x21 * t8628)), (((m.x02 * t8623) + (m.x12 * t8627)) + (m.x22 * t8628)), (((m.x03 * t8623) + (m.x13 * t8627)) + (m.x23 * t8628)), (((m.x00 * t8639) + (m.x10 * t8641)) + (m.x20 * t8636)), (((m.x01 * t8639) + (m.x11 * t8641)) + (m.x21 * t8636)), (((m.x02 * t8639) + (m.x12 * t8641)) + (m.x22 * t8636)), (((m.x03 * t8639) + (m.x13 * t8641)) + (m.x23 * t8636)), m.x30, m.x31, m.x32, m.x33⟩
+  let t8608 := (cos r.z)
+  let t8609 := (cos r.y)
+  let t8610 := (cos r.x)
+  let t8611 := (sin r.z)
+  let t8612 := (sin r.y)
+  let t8613 := (sin r.x)
+  let t8614 := (t8608 * t8609)
+  let t8615 := (t8611 * t8609)
+  let t8616 := (-t8612)
+  let t8617 := (t8608 * t8612)
+  let t8619 := (-t8611)
+  let t8621 := ((t8619 * t8610) + (t8617 * t8613))
+  let t8622 := (t8611 * t8612)
+  let t8625 := ((t8608 * t8610) + (t8622 * t8613))
+  let t8626 := (t8609 * t8613)
+  let t8634 := (t8609 * t8610)
+  let t8635 := (-t8613)
+  let t8637 := ((t8619 * t8635) + (t8617 * t8610))
+  let t8639 := ((t8608 * t8635) + (t8622 * t8610))
+  ⟨(((m.x00 * t8614) + (m.x10 * t8615)) + (m.x20 * t8616)), (((m.x01 * t8614) + (m.x11 * t8615)) + (m.x21 * t8616)), (((m.x02 * t8614) + (m.x12 * t8615)) + (m.x22 * t8616)), (((m.x03 * t8614) + (m.x13 * t8615)) + (m.x23 * t8616)), (((m.x00 * t8621) + (m.x10 * t8625)) + (m.x20 * t8626)), (((m.x01 * t8621) + (m.x11 * t8625)) + (m.x21 * t8626)), (((m.x02 * t8621) + (m.x12 * t8625)) + (m.x22 * t8626)), (((m.x03 * t8621) + (m.x13 * t8625)) + (m.x23 * t8626)), (((m.x00 * t8637) + (m.x10 * t8639)) + (m.x20 * t8634)), (((m.x01 * t8637) + (m.x11 * t8639)) + (m.x21 * t8634)), (((m.x02 * t8637) + (m.x12 * t8639)) + (m.x22 * t8634)), (((m.x03 * t8637) + (m.x13 * t8639)) + (m.x23 * t8634)), m.x30, m.x31, m.x32, m.x33⟩
 
 /-- extracted from the C++ template at T = Sym; 1 path(s) -/
 def Euler.M33_setRotation {α : Type} [Neg α] [OfNat α 0] [OfNat α 1] (sin : α → α) (cos : α → α) (r : α) : (M33 α) :=
-  let t8703 := (cos r)
-  let t8704 := (sin r)
-  ⟨t8703, t8704, (0 : α), (-t8704), t8703, (0 : α), (0 : α), (0 : α), (1 : α)⟩
+  let t8701 := (cos r)
+  let t8702 := (sin r)
+  ⟨t8701, t8702, (0 : α), (-t8702), t8701, (0 : α), (0 : α), (0 : α), (1 : α)⟩
 
 /-- extracted from the C++ template at T = Sym; 1 path(s) -/
 def Euler.M22_setRotation {α : Type} [Neg α] (sin : α → α) (cos : α → α) (r : α) : (M22 α) :=
-  let t8703 := (cos r)
-  let t8704 := (sin r)
-  ⟨t8703, t8704, (-t8704), t8703⟩
+  let t8701 := (cos r)
+  let t8702 := (sin r)
+  ⟨t8701, t8702, (-t8702), t8701⟩
 
 /-- extracted from the C++ template at T = Sym; 1 path(s) -/
 def Euler.Quat_toMatrix33 {α : Type} [Add α] [Sub α] [Mul α] [OfNat α 1] [OfNat α 2] (q : Quat α) : (M33 α) :=
@@ -128,128 +128,128 @@ def Euler.extractEulerXYZ {α : Type} [Add α] [Mul α] [Div α] [Neg α] [LT α
   let t156 := (t110 * m.x10)
   let t161 := (t113 * m.x21)
   let t162 := (t110 * m.x11)
-  let t8706 := (V3.length tmin sqrt ⟨m.x00, m.x01, m.x02⟩)
-  let t8707 := (V3.length tmin sqrt ⟨m.x10, m.x11, m.x12⟩)
-  let t8708 := (V3.length tmin sqrt ⟨m.x20, m.x21, m.x22⟩)
-  let t8709 := (m.x20 / t8708)
-  let t8710 := (m.x21 / t8708)
-  let t8711 := (m.x22 / t8708)
-  let t8712 := (atan2 m.x12 t8711)
-  let t8713 := (-t8712)
-  let t8714 := (cos t8713)
-  let t8715 := (sin t8713)
-  let t8718 := ((t72 * t8714) + (t73 * t8715))
-  let t8721 := ((t66 * t8714) + (t77 * t8715))
-  let t8722 := (t66 * t8715)
-  let t8730 := ((0 : α) * t8722)
-  let t8731 := ((0 : α) * t8721)
-  let t8734 := ((((1 : α) * t8718) + t8731) + t8730)
-  let t8736 := ((0 : α) * t8718)
-  let t8738 := ((t8736 + ((1 : α) * t8721)) + t8730)
-  let t8740 := (t8736 + t8731)
-  let t8741 := (t8740 + ((1 : α) * t8722))
-  let t8756 := (t100 * t8709)
-  let t8758 := ((t132 + t8756) + t128)
-  let t8759 := (t100 * t8710)
-  let t8761 := ((t138 + t8759) + t128)
-  let t8762 := (t100 * t8711)
-  let t8765 := ((t8740 + t8730) * (0 : α))
-  let t8766 := (t8741 * t8709)
-  let t8767 := (t8738 * m.x10)
-  let t8772 := (t8741 * t8710)
-  let t8773 := (t8738 * m.x11)
-  let t8834 := (m.x10 / t8707)
-  let t8835 := (m.x11 / t8707)
-  let t8836 := (m.x12 / t8707)
-  let t8837 := (atan2 t8836 m.x22)
-  let t8838 := (-t8837)
-  let t8839 := (cos t8838)
-  let t8840 := (sin t8838)
-  let t8843 := ((t72 * t8839) + (t73 * t8840))
-  let t8846 := ((t66 * t8839) + (t77 * t8840))
-  let t8847 := (t66 * t8840)
-  let t8855 := ((0 : α) * t8847)
-  let t8856 := ((0 : α) * t8846)
-  let t8859 := ((((1 : α) * t8843) + t8856) + t8855)
-  let t8861 := ((0 : α) * t8843)
-  let t8863 := ((t8861 + ((1 : α) * t8846)) + t8855)
-  let t8865 := (t8861 + t8856)
-  let t8866 := (t8865 + ((1 : α) * t8847))
-  let t8881 := (t97 * t8834)
-  let t8882 := (t131 + t8881)
-  let t8884 := ((t8882 + t129) + t128)
-  let t8885 := (t97 * t8835)
-  let t8886 := (t137 + t8885)
-  let t8888 := ((t8886 + t135) + t128)
-  let t8889 := (t97 * t8836)
-  let t8890 := (t143 + t8889)
-  let t8893 := ((t8865 + t8855) * (0 : α))
-  let t8894 := (t8866 * m.x20)
-  let t8895 := (t8863 * t8834)
-  let t8900 := (t8866 * m.x21)
-  let t8901 := (t8863 * t8835)
-  let t8965 := (atan2 t8836 t8711)
-  let t8966 := (-t8965)
-  let t8967 := (cos t8966)
-  let t8968 := (sin t8966)
-  let t8971 := ((t72 * t8967) + (t73 * t8968))
-  let t8974 := ((t66 * t8967) + (t77 * t8968))
-  let t8975 := (t66 * t8968)
-  let t8983 := ((0 : α) * t8975)
-  let t8984 := ((0 : α) * t8974)
-  let t8987 := ((((1 : α) * t8971) + t8984) + t8983)
-  let t8989 := ((0 : α) * t8971)
-  let t8991 := ((t8989 + ((1 : α) * t8974)) + t8983)
-  let t8993 := (t8989 + t8984)
-  let t8994 := (t8993 + ((1 : α) * t8975))
-  let t9010 := ((t8882 + t8756) + t128)
-  let t9012 := ((t8886 + t8759) + t128)
-  let t9015 := ((t8993 + t8983) * (0 : α))
-  let t9016 := (t8994 * t8709)
-  let t9017 := (t8991 * t8834)
-  let t9022 := (t8994 * t8710)
-  let t9023 := (t8991 * t8835)
-  let t9081 := (m.x00 / t8706)
-  let t9082 := (m.x01 / t8706)
-  let t9084 := (t93 * t9081)
-  let t9085 := (t9084 + t130)
-  let t9087 := ((t9085 + t129) + t128)
-  let t9088 := (t93 * t9082)
-  let t9089 := (t9088 + t136)
-  let t9091 := ((t9089 + t135) + t128)
-  let t9092 := (t93 * (m.x02 / t8706))
-  let t9093 := (t9092 + t142)
-  let t9141 := ((t9085 + t8756) + t128)
-  let t9143 := ((t9089 + t8759) + t128)
-  let t9184 := (t9084 + t8881)
-  let t9186 := ((t9184 + t129) + t128)
-  let t9187 := (t9088 + t8885)
-  let t9189 := ((t9187 + t135) + t128)
-  let t9190 := (t9092 + t8889)
-  let t9235 := ((t9184 + t8756) + t128)
-  let t9237 := ((t9187 + t8759) + t128)
-  if t8706 = (0 : α) then
-    if t8707 = (0 : α) then
-      if t8708 = (0 : α) then
+  let t8704 := (V3.length tmin sqrt ⟨m.x00, m.x01, m.x02⟩)
+  let t8705 := (V3.length tmin sqrt ⟨m.x10, m.x11, m.x12⟩)
+  let t8706 := (V3.length tmin sqrt ⟨m.x20, m.x21, m.x22⟩)
+  let t8707 := (m.x20 / t8706)
+  let t8708 := (m.x21 / t8706)
+  let t8709 := (m.x22 / t8706)
+  let t8710 := (atan2 m.x12 t8709)
+  let t8711 := (-t8710)
+  let t8712 := (cos t8711)
+  let t8713 := (sin t8711)
+  let t8716 := ((t72 * t8712) + (t73 * t8713))
+  let t8719 := ((t66 * t8712) + (t77 * t8713))
+  let t8720 := (t66 * t8713)
+  let t8728 := ((0 : α) * t8720)
+  let t8729 := ((0 : α) * t8719)
+  let t8732 := ((((1 : α) * t8716) + t8729) + t8728)
+  let t8734 := ((0 : α) * t8716)
+  let t8736 := ((t8734 + ((1 : α) * t8719)) + t8728)
+  let t8738 := (t8734 + t8729)
+  let t8739 := (t8738 + ((1 : α) * t8720))
+  let t8754 := (t100 * t8707)
+  let t8756 := ((t132 + t8754) + t128)
+  let t8757 := (t100 * t8708)
+  let t8759 := ((t138 + t8757) + t128)
+  let t8760 := (t100 * t8709)
+  let t8763 := ((t8738 + t8728) * (0 : α))
+  let t8764 := (t8739 * t8707)
+  let t8765 := (t8736 * m.x10)
+  let t8770 := (t8739 * t8708)
+  let t8771 := (t8736 * m.x11)
+  let t8832 := (m.x10 / t8705)
+  let t8833 := (m.x11 / t8705)
+  let t8834 := (m.x12 / t8705)
+  let t8835 := (atan2 t8834 m.x22)
+  let t8836 := (-t8835)
+  let t8837 := (cos t8836)
+  let t8838 := (sin t8836)
+  let t8841 := ((t72 * t8837) + (t73 * t8838))
+  let t8844 := ((t66 * t8837) + (t77 * t8838))
+  let t8845 := (t66 * t8838)
+  let t8853 := ((0 : α) * t8845)
+  let t8854 := ((0 : α) * t8844)
+  let t8857 := ((((1 : α) * t8841) + t8854) + t8853)
+  let t8859 := ((0 : α) * t8841)
+  let t8861 := ((t8859 + ((1 : α) * t8844)) + t8853)
+  let t8863 := (t8859 + t8854)
+  let t8864 := (t8863 + ((1 : α) * t8845))
+  let t8879 := (t97 * t8832)
+  let t8880 := (t131 + t8879)
+  let t8882 := ((t8880 + t129) + t128)
+  let t8883 := (t97 * t8833)
+  let t8884 := (t137 + t8883)
+  let t8886 := ((t8884 + t135) + t128)
+  let t8887 := (t97 * t8834)
+  let t8888 := (t143 + t8887)
+  let t8891 := ((t8863 + t8853) * (0 : α))
+  let t8892 := (t8864 * m.x20)
+  let t8893 := (t8861 * t8832)
+  let t8898 := (t8864 * m.x21)
+  let t8899 := (t8861 * t8833)
+  let t8963 := (atan2 t8834 t8709)
+  let t8964 := (-t8963)
+  let t8965 := (cos t8964)
+  let t8966 := (sin t8964)
+  let t8969 := ((t72 * t8965) + (t73 * t8966))
+  let t8972 := ((t66 * t8965) + (t77 * t8966))
+  let t8973 := (t66 * t8966)
+  let t8981 := ((0 : α) * t8973)
+  let t8982 := ((0 : α) * t8972)
+  let t8985 := ((((1 : α) * t8969) + t8982) + t8981)
+  let t8987 := ((0 : α) * t8969)
+  let t8989 := ((t8987 + ((1 : α) * t8972)) + t8981)
+  let t8991 := (t8987 + t8982)
+  let t8992 := (t8991 + ((1 : α) * t8973))
+  let t9008 := ((t8880 + t8754) + t128)
+  let t9010 := ((t8884 + t8757) + t128)
+  let t9013 := ((t8991 + t8981) * (0 : α))
+  let t9014 := (t8992 * t8707)
+  let t9015 := (t8989 * t8832)
+  let t9020 := (t8992 * t8708)
+  let t9021 := (t8989 * t8833)
+  let t9079 := (m.x00 / t8704)
+  let t9080 := (m.x01 / t8704)
+  let t9082 := (t93 * t9079)
+  let t9083 := (t9082 + t130)
+  let t9085 := ((t9083 + t129) + t128)
+  let t9086 := (t93 * t9080)
+  let t9087 := (t9086 + t136)
+  let t9089 := ((t9087 + t135) + t128)
+  let t9090 := (t93 * (m.x02 / t8704))
+  let t9091 := (t9090 + t142)
+  let t9139 := ((t9083 + t8754) + t128)
+  let t9141 := ((t9087 + t8757) + t128)
+  let t9182 := (t9082 + t8879)
+  let t9184 := ((t9182 + t129) + t128)
+  let t9185 := (t9086 + t8883)
+  let t9187 := ((t9185 + t135) + t128)
+  let t9188 := (t9090 + t8887)
+  let t9233 := ((t9182 + t8754) + t128)
+  let t9235 := ((t9185 + t8757) + t128)
+  if t8704 = (0 : α) then
+    if t8705 = (0 : α) then
+      if t8706 = (0 : α) then
         ⟨t64, (atan2 (-((t144 + t141) + t128)) (sqrt ((t134 * t134) + (t140 * t140)))), (atan2 (-((((t106 * m.x00) + t156) + t155) + t154)) ((((t106 * m.x01) + t162) + t161) + t154))⟩
       else
-        ⟨t8712, (atan2 (-((t144 + t8762) + t128)) (sqrt ((t8758 * t8758) + (t8761 * t8761)))), (atan2 (-((((t8734 * m.x00) + t8767) + t8766) + t8765)) ((((t8734 * m.x01) + t8773) + t8772) + t8765))⟩
+        ⟨t8710, (atan2 (-((t144 + t8760) + t128)) (sqrt ((t8756 * t8756) + (t8759 * t8759)))), (atan2 (-((((t8732 * m.x00) + t8765) + t8764) + t8763)) ((((t8732 * m.x01) + t8771) + t8770) + t8763))⟩
     else
-      if t8708 = (0 : α) then
-        ⟨t8837, (atan2 (-((t8890 + t141) + t128)) (sqrt ((t8884 * t8884) + (t8888 * t8888)))), (atan2 (-((((t8859 * m.x00) + t8895) + t8894) + t8893)) ((((t8859 * m.x01) + t8901) + t8900) + t8893))⟩
+      if t8706 = (0 : α) then
+        ⟨t8835, (atan2 (-((t8888 + t141) + t128)) (sqrt ((t8882 * t8882) + (t8886 * t8886)))), (atan2 (-((((t8857 * m.x00) + t8893) + t8892) + t8891)) ((((t8857 * m.x01) + t8899) + t8898) + t8891))⟩
       else
-        ⟨t8965, (atan2 (-((t8890 + t8762) + t128)) (sqrt ((t9010 * t9010) + (t9012 * t9012)))), (atan2 (-((((t8987 * m.x00) + t9017) + t9016) + t9015)) ((((t8987 * m.x01) + t9023) + t9022) + t9015))⟩
+        ⟨t8963, (atan2 (-((t8888 + t8760) + t128)) (sqrt ((t9008 * t9008) + (t9010 * t9010)))), (atan2 (-((((t8985 * m.x00) + t9015) + t9014) + t9013)) ((((t8985 * m.x01) + t9021) + t9020) + t9013))⟩
   else
-    if t8707 = (0 : α) then
-      if t8708 = (0 : α) then
-        ⟨t64, (atan2 (-((t9093 + t141) + t128)) (sqrt ((t9087 * t9087) + (t9091 * t9091)))), (atan2 (-((((t106 * t9081) + t156) + t155) + t154)) ((((t106 * t9082) + t162) + t161) + t154))⟩
+    if t8705 = (0 : α) then
+      if t8706 = (0 : α) then
+        ⟨t64, (atan2 (-((t9091 + t141) + t128)) (sqrt ((t9085 * t9085) + (t9089 * t9089)))), (atan2 (-((((t106 * t9079) + t156) + t155) + t154)) ((((t106 * t9080) + t162) + t161) + t154))⟩
       else
-        ⟨t8712, (atan2 (-((t9093 + t8762) + t128)) (sqrt ((t9141 * t9141) + (t9143 * t9143)))), (atan2 (-((((t8734 * t9081) + t8767) + t8766) + t8765)) ((((t8734 * t9082) + t8773) + t8772) + t8765))⟩
+        ⟨t8710, (atan2 (-((t9091 + t8760) + t128)) (sqrt ((t9139 * t9139) + (t9141 * t9141)))), (atan2 (-((((t8732 * t9079) + t8765) + t8764) + t8763)) ((((t8732 * t9080) + t8771) + t8770) + t8763))⟩
     else
-      if t8708 = (0 : α) then
-        ⟨t8837, (atan2 (-((t9190 + t141) + t128)) (sqrt ((t9186 * t9186) + (t9189 * t9189)))), (atan2 (-((((t8859 * t9081) + t8895) + t8894) + t8893)) ((((t8859 * t9082) + t8901) + t8900) + t8893))⟩
+      if t8706 = (0 : α) then
+        ⟨t8835, (atan2 (-((t9188 + t141) + t128)) (sqrt ((t9184 * t9184) + (t9187 * t9187)))), (atan2 (-((((t8857 * t9079) + t8893) + t8892) + t8891)) ((((t8857 * t9080) + t8899) + t8898) + t8891))⟩
       else
-        ⟨t8965, (atan2 (-((t9190 + t8762) + t128)) (sqrt ((t9235 * t9235) + (t9237 * t9237)))), (atan2 (-((((t8987 * t9081) + t9017) + t9016) + t9015)) ((((t8987 * t9082) + t9023) + t9022) + t9015))⟩
+        ⟨t8963, (atan2 (-((t9188 + t8760) + t128)) (sqrt ((t9233 * t9233) + (t9235 * t9235)))), (atan2 (-((((t8985 * t9079) + t9015) + t9014) + t9013)) ((((t8985 * t9080) + t9021) + t9020) + t9013))⟩
 
 /-- extracted from the C++ template at T = Sym; 8 path(s) -/
 def Euler.extractEulerZYX {α : Type} [Add α] [Mul α] [Div α] [Neg α] [LT α] [LE α] [DecidableLT α] [DecidableLE α] [DecidableEq α] [OfNat α 0] [OfNat α 1] [OfNat α 2] (tmin : α) (sqrt : α → α) (sin : α → α) (cos : α → α) (atan2 : α → α → α) (m : M44 α) : (V3 α) :=
@@ -260,212 +260,212 @@ def Euler.extractEulerZYX {α : Type} [Add α] [Mul α] [Div α] [Neg α] [LT α
   let t73 := (t66 * t68)
   let t91 := ((1 : α) * t70)
   let t95 := ((0 : α) * t70)
-  let t2422 := ((0 : α) * t73)
-  let t2431 := ((1 : α) * t73)
-  let t8706 := (V3.length tmin sqrt ⟨m.x00, m.x01, m.x02⟩)
-  let t8707 := (V3.length tmin sqrt ⟨m.x10, m.x11, m.x12⟩)
-  let t8708 := (V3.length tmin sqrt ⟨m.x20, m.x21, m.x22⟩)
-  let t8709 := (m.x20 / t8708)
-  let t8710 := (m.x21 / t8708)
-  let t8711 := (m.x22 / t8708)
-  let t8834 := (m.x10 / t8707)
-  let t8835 := (m.x11 / t8707)
-  let t8836 := (m.x12 / t8707)
-  let t9081 := (m.x00 / t8706)
-  let t9082 := (m.x01 / t8706)
-  let t9083 := (m.x02 / t8706)
-  let t9278 := (-(atan2 m.x10 m.x00))
-  let t9279 := (-t9278)
-  let t9280 := (cos t9279)
-  let t9281 := (sin t9279)
-  let t9284 := (t9280 * t68)
-  let t9286 := (-t9281)
-  let t9288 := ((t9286 * t66) + (t9284 * t68))
-  let t9289 := (t9281 * t68)
-  let t9291 := ((t9280 * t66) + (t9289 * t68))
-  let t9294 := ((t9286 * t72) + (t9284 * t66))
-  let t9297 := ((t9280 * t72) + (t9289 * t66))
-  let t9309 := ((0 : α) * t9291)
-  let t9312 := ((((1 : α) * t9288) + t9309) + t2422)
-  let t9314 := ((0 : α) * t9288)
-  let t9316 := ((t9314 + ((1 : α) * t9291)) + t2422)
-  let t9317 := (t9314 + t9309)
-  let t9318 := (t9317 + t2431)
-  let t9320 := ((0 : α) * t9297)
-  let t9323 := ((((1 : α) * t9294) + t9320) + t95)
-  let t9325 := ((0 : α) * t9294)
-  let t9327 := ((t9325 + ((1 : α) * t9297)) + t95)
-  let t9328 := (t9325 + t9320)
-  let t9329 := (t9328 + t91)
-  let t9357 := ((t9317 + t2422) * (0 : α))
-  let t9367 := ((t9312 * m.x01) + (t9316 * m.x11))
-  let t9373 := ((t9312 * m.x02) + (t9316 * m.x12))
-  let t9383 := ((t9328 + t95) * (0 : α))
-  let t9387 := ((t9323 * m.x00) + (t9327 * m.x10))
-  let t9393 := ((t9323 * m.x01) + (t9327 * m.x11))
-  let t9395 := ((t9393 + (t9329 * m.x21)) + t9383)
-  let t9399 := ((t9323 * m.x02) + (t9327 * m.x12))
-  let t9401 := ((t9399 + (t9329 * m.x22)) + t9383)
-  let t9442 := ((t9393 + (t9329 * t8710)) + t9383)
-  let t9445 := ((t9399 + (t9329 * t8711)) + t9383)
-  let t9457 := (-(atan2 t8834 m.x00))
-  let t9458 := (-t9457)
-  let t9459 := (cos t9458)
-  let t9460 := (sin t9458)
-  let t9463 := (t9459 * t68)
-  let t9465 := (-t9460)
-  let t9467 := ((t9465 * t66) + (t9463 * t68))
-  let t9468 := (t9460 * t68)
-  let t9470 := ((t9459 * t66) + (t9468 * t68))
-  let t9473 := ((t9465 * t72) + (t9463 * t66))
-  let t9476 := ((t9459 * t72) + (t9468 * t66))
-  let t9488 := ((0 : α) * t9470)
-  let t9491 := ((((1 : α) * t9467) + t9488) + t2422)
-  let t9493 := ((0 : α) * t9467)
-  let t9495 := ((t9493 + ((1 : α) * t9470)) + t2422)
-  let t9496 := (t9493 + t9488)
-  let t9497 := (t9496 + t2431)
-  let t9499 := ((0 : α) * t9476)
-  let t9502 := ((((1 : α) * t9473) + t9499) + t95)
-  let t9504 := ((0 : α) * t9473)
-  let t9506 := ((t9504 + ((1 : α) * t9476)) + t95)
-  let t9507 := (t9504 + t9499)
-  let t9508 := (t9507 + t91)
-  let t9536 := ((t9496 + t2422) * (0 : α))
-  let t9546 := ((t9491 * m.x01) + (t9495 * t8835))
-  let t9552 := ((t9491 * m.x02) + (t9495 * t8836))
-  let t9562 := ((t9507 + t95) * (0 : α))
-  let t9566 := ((t9502 * m.x00) + (t9506 * t8834))
-  let t9572 := ((t9502 * m.x01) + (t9506 * t8835))
-  let t9574 := ((t9572 + (t9508 * m.x21)) + t9562)
-  let t9578 := ((t9502 * m.x02) + (t9506 * t8836))
-  let t9580 := ((t9578 + (t9508 * m.x22)) + t9562)
-  let t9621 := ((t9572 + (t9508 * t8710)) + t9562)
-  let t9624 := ((t9578 + (t9508 * t8711)) + t9562)
-  let t9636 := (-(atan2 m.x10 t9081))
-  let t9637 := (-t9636)
-  let t9638 := (cos t9637)
-  let t9639 := (sin t9637)
-  let t9642 := (t9638 * t68)
-  let t9644 := (-t9639)
-  let t9646 := ((t9644 * t66) + (t9642 * t68))
-  let t9647 := (t9639 * t68)
-  let t9649 := ((t9638 * t66) + (t9647 * t68))
-  let t9652 := ((t9644 * t72) + (t9642 * t66))
-  let t9655 := ((t9638 * t72) + (t9647 * t66))
-  let t9667 := ((0 : α) * t9649)
-  let t9670 := ((((1 : α) * t9646) + t9667) + t2422)
-  let t9672 := ((0 : α) * t9646)
-  let t9674 := ((t9672 + ((1 : α) * t9649)) + t2422)
-  let t9675 := (t9672 + t9667)
-  let t9676 := (t9675 + t2431)
-  let t9678 := ((0 : α) * t9655)
-  let t9681 := ((((1 : α) * t9652) + t9678) + t95)
-  let t9683 := ((0 : α) * t9652)
-  let t9685 := ((t9683 + ((1 : α) * t9655)) + t95)
-  let t9686 := (t9683 + t9678)
-  let t9687 := (t9686 + t91)
-  let t9715 := ((t9675 + t2422) * (0 : α))
-  let t9725 := ((t9670 * t9082) + (t9674 * m.x11))
-  let t9731 := ((t9670 * t9083) + (t9674 * m.x12))
-  let t9741 := ((t9686 + t95) * (0 : α))
-  let t9745 := ((t9681 * t9081) + (t9685 * m.x10))
-  let t9751 := ((t9681 * t9082) + (t9685 * m.x11))
-  let t9753 := ((t9751 + (t9687 * m.x21)) + t9741)
-  let t9757 := ((t9681 * t9083) + (t9685 * m.x12))
-  let t9759 := ((t9757 + (t9687 * m.x22)) + t9741)
-  let t9800 := ((t9751 + (t9687 * t8710)) + t9741)
-  let t9803 := ((t9757 + (t9687 * t8711)) + t9741)
-  let t9815 := (-(atan2 t8834 t9081))
-  let t9816 := (-t9815)
-  let t9817 := (cos t9816)
-  let t9818 := (sin t9816)
-  let t9821 := (t9817 * t68)
-  let t9823 := (-t9818)
-  let t9825 := ((t9823 * t66) + (t9821 * t68))
-  let t9826 := (t9818 * t68)
-  let t9828 := ((t9817 * t66) + (t9826 * t68))
-  let t9831 := ((t9823 * t72) + (t9821 * t66))
-  let t9834 := ((t9817 * t72) + (t9826 * t66))
-  let t9846 := ((0 : α) * t9828)
-  let t9849 := ((((1 : α) * t9825) + t9846) + t2422)
-  let t9851 := ((0 : α) * t9825)
-  let t9853 := ((t9851 + ((1 : α) * t9828)) + t2422)
-  let t9854 := (t9851 + t9846)
-  let t9855 := (t9854 + t2431)
-  let t9857 := ((0 : α) * t9834)
-  let t9860 := ((((1 : α) * t9831) + t9857) + t95)
-  let t9862 := ((0 : α) * t9831)
-  let t9864 := ((t9862 + ((1 : α) * t9834)) + t95)
-  let t9865 := (t9862 + t9857)
-  let t9866 := (t9865 + t91)
-  let t9894 := ((t9854 + t2422) * (0 : α))
-  let t9904 := ((t9849 * t9082) + (t9853 * t8835))
-  let t9910 := ((t9849 * t9083) + (t9853 * t8836))
-  let t9920 := ((t9865 + t95) * (0 : α))
-  let t9924 := ((t9860 * t9081) + (t9864 * t8834))
-  let t9930 := ((t9860 * t9082) + (t9864 * t8835))
-  let t9932 := ((t9930 + (t9866 * m.x21)) + t9920)
-  let t9936 := ((t9860 * t9083) + (t9864 * t8836))
-  let t9938 := ((t9936 + (t9866 * m.x22)) + t9920)
-  let t9979 := ((t9930 + (t9866 * t8710)) + t9920)
-  let t9982 := ((t9936 + (t9866 * t8711)) + t9920)
-  if t8706 = (0 : α) then
-    if t8707 = (0 : α) then
-      if t8708 = (0 : α) then
-        ⟨t9278, (-(atan2 (-((t9387 + (t9329 * m.x20)) + t9383)) (sqrt ((t9401 * t9401) + (t9395 * t9395))))), (-(atan2 (-((t9373 + (t9318 * m.x22)) + t9357)) ((t9367 + (t9318 * m.x21)) + t9357)))⟩
+  let t2420 := ((0 : α) * t73)
+  let t2429 := ((1 : α) * t73)
+  let t8704 := (V3.length tmin sqrt ⟨m.x00, m.x01, m.x02⟩)
+  let t8705 := (V3.length tmin sqrt ⟨m.x10, m.x11, m.x12⟩)
+  let t8706 := (V3.length tmin sqrt ⟨m.x20, m.x21, m.x22⟩)
+  let t8707 := (m.x20 / t8706)
+  let t8708 := (m.x21 / t8706)
+  let t8709 := (m.x22 / t8706)
+  let t8832 := (m.x10 / t8705)
+  let t8833 := (m.x11 / t8705)
+  let t8834 := (m.x12 / t8705)
+  let t9079 := (m.x00 / t8704)
+  let t9080 := (m.x01 / t8704)
+  let t9081 := (m.x02 / t8704)
+  let t9276 := (-(atan2 m.x10 m.x00))
+  let t9277 := (-t9276)
+  let t9278 := (cos t9277)
+  let t9279 := (sin t9277)
+  let t9282 := (t9278 * t68)
+  let t9284 := (-t9279)
+  let t9286 := ((t9284 * t66) + (t9282 * t68))
+  let t9287 := (t9279 * t68)
+  let t9289 := ((t9278 * t66) + (t9287 * t68))
+  let t9292 := ((t9284 * t72) + (t9282 * t66))
+  let t9295 := ((t9278 * t72) + (t9287 * t66))
+  let t9307 := ((0 : α) * t9289)
+  let t9310 := ((((1 : α) * t9286) + t9307) + t2420)
+  let t9312 := ((0 : α) * t9286)
+  let t9314 := ((t9312 + ((1 : α) * t9289)) + t2420)
+  let t9315 := (t9312 + t9307)
+  let t9316 := (t9315 + t2429)
+  let t9318 := ((0 : α) * t9295)
+  let t9321 := ((((1 : α) * t9292) + t9318) + t95)
+  let t9323 := ((0 : α) * t9292)
+  let t9325 := ((t9323 + ((1 : α) * t9295)) + t95)
+  let t9326 := (t9323 + t9318)
+  let t9327 := (t9326 + t91)
+  let t9355 := ((t9315 + t2420) * (0 : α))
+  let t9365 := ((t9310 * m.x01) + (t9314 * m.x11))
+  let t9371 := ((t9310 * m.x02) + (t9314 * m.x12))
+  let t9381 := ((t9326 + t95) * (0 : α))
+  let t9385 := ((t9321 * m.x00) + (t9325 * m.x10))
+  let t9391 := ((t9321 * m.x01) + (t9325 * m.x11))
+  let t9393 := ((t9391 + (t9327 * m.x21)) + t9381)
+  let t9397 := ((t9321 * m.x02) + (t9325 * m.x12))
+  let t9399 := ((t9397 + (t9327 * m.x22)) + t9381)
+  let t9440 := ((t9391 + (t9327 * t8708)) + t9381)
+  let t9443 := ((t9397 + (t9327 * t8709)) + t9381)
+  let t9455 := (-(atan2 t8832 m.x00))
+  let t9456 := (-t9455)
+  let t9457 := (cos t9456)
+  let t9458 := (sin t9456)
+  let t9461 := (t9457 * t68)
+  let t9463 := (-t9458)
+  let t9465 := ((t9463 * t66) + (t9461 * t68))
+  let t9466 := (t9458 * t68)
+  let t9468 := ((t9457 * t66) + (t9466 * t68))
+  let t9471 := ((t9463 * t72) + (t9461 * t66))
+  let t9474 := ((t9457 * t72) + (t9466 * t66))
+  let t9486 := ((0 : α) * t9468)
+  let t9489 := ((((1 : α) * t9465) + t9486) + t2420)
+  let t9491 := ((0 : α) * t9465)
+  let t9493 := ((t9491 + ((1 : α) * t9468)) + t2420)
+  let t9494 := (t9491 + t9486)
+  let t9495 := (t9494 + t2429)
+  let t9497 := ((0 : α) * t9474)
+  let t9500 := ((((1 : α) * t9471) + t9497) + t95)
+  let t9502 := ((0 : α) * t9471)
+  let t9504 := ((t9502 + ((1 : α) * t9474)) + t95)
+  let t9505 := (t9502 + t9497)
+  let t9506 := (t9505 + t91)
+  let t9534 := ((t9494 + t2420) * (0 : α))
+  let t9544 := ((t9489 * m.x01) + (t9493 * t8833))
+  let t9550 := ((t9489 * m.x02) + (t9493 * t8834))
+  let t9560 := ((t9505 + t95) * (0 : α))
+  let t9564 := ((t9500 * m.x00) + (t9504 * t8832))
+  let t9570 := ((t9500 * m.x01) + (t9504 * t8833))
+  let t9572 := ((t9570 + (t9506 * m.x21)) + t9560)
+  let t9576 := ((t9500 * m.x02) + (t9504 * t8834))
+  let t9578 := ((t9576 + (t9506 * m.x22)) + t9560)
+  let t9619 := ((t9570 + (t9506 * t8708)) + t9560)
+  let t9622 := ((t9576 + (t9506 * t8709)) + t9560)
+  let t9634 := (-(atan2 m.x10 t9079))
+  let t9635 := (-t9634)
+  let t9636 := (cos t9635)
+  let t9637 := (sin t9635)
+  let t9640 := (t9636 * t68)
+  let t9642 := (-t9637)
+  let t9644 := ((t9642 * t66) + (t9640 * t68))
+  let t9645 := (t9637 * t68)
+  let t9647 := ((t9636 * t66) + (t9645 * t68))
+  let t9650 := ((t9642 * t72) + (t9640 * t66))
+  let t9653 := ((t9636 * t72) + (t9645 * t66))
+  let t9665 := ((0 : α) * t9647)
+  let t9668 := ((((1 : α) * t9644) + t9665) + t2420)
+  let t9670 := ((0 : α) * t9644)
+  let t9672 := ((t9670 + ((1 : α) * t9647)) + t2420)
+  let t9673 := (t9670 + t9665)
+  let t9674 := (t9673 + t2429)
+  let t9676 := ((0 : α) * t9653)
+  let t9679 := ((((1 : α) * t9650) + t9676) + t95)
+  let t9681 := ((0 : α) * t9650)
+  let t9683 := ((t9681 + ((1 : α) * t9653)) + t95)
+  let t9684 := (t9681 + t9676)
+  let t9685 := (t9684 + t91)
+  let t9713 := ((t9673 + t2420) * (0 : α))
+  let t9723 := ((t9668 * t9080) + (t9672 * m.x11))
+  let t9729 := ((t9668 * t9081) + (t9672 * m.x12))
+  let t9739 := ((t9684 + t95) * (0 : α))
+  let t9743 := ((t9679 * t9079) + (t9683 * m.x10))
+  let t9749 := ((t9679 * t9080) + (t9683 * m.x11))
+  let t9751 := ((t9749 + (t9685 * m.x21)) + t9739)
+  let t9755 := ((t9679 * t9081) + (t9683 * m.x12))
+  let t9757 := ((t9755 + (t9685 * m.x22)) + t9739)
+  let t9798 := ((t9749 + (t9685 * t8708)) + t9739)
+  let t9801 := ((t9755 + (t9685 * t8709)) + t9739)
+  let t9813 := (-(atan2 t8832 t9079))
+  let t9814 := (-t9813)
+  let t9815 := (cos t9814)
+  let t9816 := (sin t9814)
+  let t9819 := (t9815 * t68)
+  let t9821 := (-t9816)
+  let t9823 := ((t9821 * t66) + (t9819 * t68))
+  let t9824 := (t9816 * t68)
+  let t9826 := ((t9815 * t66) + (t9824 * t68))
+  let t9829 := ((t9821 * t72) + (t9819 * t66))
+  let t9832 := ((t9815 * t72) + (t9824 * t66))
+  let t9844 := ((0 : α) * t9826)
+  let t9847 := ((((1 : α) * t9823) + t9844) + t2420)
+  let t9849 := ((0 : α) * t9823)
+  let t9851 := ((t9849 + ((1 : α) * t9826)) + t2420)
+  let t9852 := (t9849 + t9844)
+  let t9853 := (t9852 + t2429)
+  let t9855 := ((0 : α) * t9832)
+  let t9858 := ((((1 : α) * t9829) + t9855) + t95)
+  let t9860 := ((0 : α) * t9829)
+  let t9862 := ((t9860 + ((1 : α) * t9832)) + t95)
+  let t9863 := (t9860 + t9855)
+  let t9864 := (t9863 + t91)
+  let t9892 := ((t9852 + t2420) * (0 : α))
+  let t9902 := ((t9847 * t9080) + (t9851 * t8833))
+  let t9908 := ((t9847 * t9081) + (t9851 * t8834))
+  let t9918 := ((t9863 + t95) * (0 : α))
+  let t9922 := ((t9858 * t9079) + (t9862 * t8832))
+  let t9928 := ((t9858 * t9080) + (t9862 * t8833))
+  let t9930 := ((t9928 + (t9864 * m.x21)) + t9918)
+  let t9934 := ((t9858 * t9081) + (t9862 * t8834))
+  let t9936 := ((t9934 + (t9864 * m.x22)) + t9918)
+  let t9977 := ((t9928 + (t9864 * t8708)) + t9918)
+  let t9980 := ((t9934 + (t9864 * t8709)) + t9918)
+  if t8704 = (0 : α) then
+    if t8705 = (0 : α) then
+      if t8706 = (0 : α) then
+        ⟨t9276, (-(atan2 (-((t9385 + (t9327 * m.x20)) + t9381)) (sqrt ((t9399 * t9399) + (t9393 * t9393))))), (-(atan2 (-((t9371 + (t9316 * m.x22)) + t9355)) ((t9365 + (t9316 * m.x21)) + t9355)))⟩
       else
-        ⟨t9278, (-(atan2 (-((t9387 + (t9329 * t8709)) + t9383)) (sqrt ((t9445 * t9445) + (t9442 * t9442))))), (-(atan2 (-((t9373 + (t9318 * t8711)) + t9357)) ((t9367 + (t9318 * t8710)) + t9357)))⟩
+        ⟨t9276, (-(atan2 (-((t9385 + (t9327 * t8707)) + t9381)) (sqrt ((t9443 * t9443) + (t9440 * t9440))))), (-(atan2 (-((t9371 + (t9316 * t8709)) + t9355)) ((t9365 + (t9316 * t8708)) + t9355)))⟩
     else
-      if t8708 = (0 : α) then
-        ⟨t9457, (-(atan2 (-((t9566 + (t9508 * m.x20)) + t9562)) (sqrt ((t9580 * t9580) + (t9574 * t9574))))), (-(atan2 (-((t9552 + (t9497 * m.x22)) + t9536)) ((t9546 + (t9497 * m.x21)) + t9536)))⟩
+      if t8706 = (0 : α) then
+        ⟨t9455, (-(atan2 (-((t9564 + (t9506 * m.x20)) + t9560)) (sqrt ((t9578 * t9578) + (t9572 * t9572))))), (-(atan2 (-((t9550 + (t9495 * m.x22)) + t9534)) ((t9544 + (t9495 * m.x21)) + t9534)))⟩
       else
-        ⟨t9457, (-(atan2 (-((t9566 + (t9508 * t8709)) + t9562)) (sqrt ((t9624 * t9624) + (t9621 * t9621))))), (-(atan2 (-((t9552 + (t9497 * t8711)) + t9536)) ((t9546 + (t9497 * t8710)) + t9536)))⟩
+        ⟨t9455, (-(atan2 (-((t9564 + (t9506 * t8707)) + t9560)) (sqrt ((t9622 * t9622) + (t9619 * t9619))))), (-(atan2 (-((t9550 + (t9495 * t8709)) + t9534)) ((t9544 + (t9495 * t8708)) + t9534)))⟩
   else
-    if t8707 = (0 : α) then
-      if t8708 = (0 : α) then
-        ⟨t9636, (-(atan2 (-((t9745 + (t9687 * m.x20)) + t9741)) (sqrt ((t9759 * t9759) + (t9753 * t9753))))), (-(atan2 (-((t9731 + (t9676 * m.x22)) + t9715)) ((t9725 + (t9676 * m.x21)) + t9715)))⟩
+    if t8705 = (0 : α) then
+      if t8706 = (0 : α) then
+        ⟨t9634, (-(atan2 (-((t9743 + (t9685 * m.x20)) + t9739)) (sqrt ((t9757 * t9757) + (t9751 * t9751))))), (-(atan2 (-((t9729 + (t9674 * m.x22)) + t9713)) ((t9723 + (t9674 * m.x21)) + t9713)))⟩
       else
-        ⟨t9636, (-(atan2 (-((t9745 + (t9687 * t8709)) + t9741)) (sqrt ((t9803 * t9803) + (t9800 * t9800))))), (-(atan2 (-((t9731 + (t9676 * t8711)) + t9715)) ((t9725 + (t9676 * t8710)) + t9715)))⟩
+        ⟨t9634, (-(atan2 (-((t9743 + (t9685 * t8707)) + t9739)) (sqrt ((t9801 * t9801) + (t9798 * t9798))))), (-(atan2 (-((t9729 + (t9674 * t8709)) + t9713)) ((t9723 + (t9674 * t8708)) + t9713)))⟩
     else
-      if t8708 = (0 : α) then
-        ⟨t9815, (-(atan2 (-((t9924 + (t9866 * m.x20)) + t9920)) (sqrt ((t9938 * t9938) + (t9932 * t9932))))), (-(atan2 (-((t9910 + (t9855 * m.x22)) + t9894)) ((t9904 + (t9855 * m.x21)) + t9894)))⟩
+      if t8706 = (0 : α) then
+        ⟨t9813, (-(atan2 (-((t9922 + (t9864 * m.x20)) + t9918)) (sqrt ((t9936 * t9936) + (t9930 * t9930))))), (-(atan2 (-((t9908 + (t9853 * m.x22)) + t9892)) ((t9902 + (t9853 * m.x21)) + t9892)))⟩
       else
-        ⟨t9815, (-(atan2 (-((t9924 + (t9866 * t8709)) + t9920)) (sqrt ((t9982 * t9982) + (t9979 * t9979))))), (-(atan2 (-((t9910 + (t9855 * t8711)) + t9894)) ((t9904 + (t9855 * t8710)) + t9894)))⟩
+        ⟨t9813, (-(atan2 (-((t9922 + (t9864 * t8707)) + t9918)) (sqrt ((t9980 * t9980) + (t9977 * t9977))))), (-(atan2 (-((t9908 + (t9853 * t8709)) + t9892)) ((t9902 + (t9853 * t8708)) + t9892)))⟩
 
 /-- extracted from the C++ template at T = Sym; 4 path(s) -/
 def Euler.extractEuler22 {α : Type} [Add α] [Mul α] [Div α] [Neg α] [LT α] [DecidableLT α] [DecidableEq α] [OfNat α 0] [OfNat α 2] (tmin : α) (sqrt : α → α) (atan2 : α → α → α) (m : M22 α) : α :=
-  let t9993 := (V2.length tmin sqrt ⟨m.x00, m.x01⟩)
-  let t9994 := (V2.length tmin sqrt ⟨m.x10, m.x11⟩)
-  let t9995 := (m.x10 / t9994)
-  let t9999 := (m.x00 / t9993)
-  if t9993 = (0 : α) then
-    if t9994 = (0 : α) then
+  let t9991 := (V2.length tmin sqrt ⟨m.x00, m.x01⟩)
+  let t9992 := (V2.length tmin sqrt ⟨m.x10, m.x11⟩)
+  let t9993 := (m.x10 / t9992)
+  let t9997 := (m.x00 / t9991)
+  if t9991 = (0 : α) then
+    if t9992 = (0 : α) then
       (-(atan2 m.x10 m.x00))
     else
-      (-(atan2 t9995 m.x00))
+      (-(atan2 t9993 m.x00))
   else
-    if t9994 = (0 : α) then
-      (-(atan2 m.x10 t9999))
+    if t9992 = (0 : α) then
+      (-(atan2 m.x10 t9997))
     else
-      (-(atan2 t9995 t9999))
+      (-(atan2 t9993 t9997))
 
 /-- extracted from the C++ template at T = Sym; 4 path(s) -/
 def Euler.extractEuler33 {α : Type} [Add α] [Mul α] [Div α] [Neg α] [LT α] [DecidableLT α] [DecidableEq α] [OfNat α 0] [OfNat α 2] (tmin : α) (sqrt : α → α) (atan2 : α → α → α) (m : M33 α) : α :=
-  let t9993 := (V2.length tmin sqrt ⟨m.x00, m.x01⟩)
-  let t9994 := (V2.length tmin sqrt ⟨m.x10, m.x11⟩)
-  let t9995 := (m.x10 / t9994)
-  let t9999 := (m.x00 / t9993)
-  if t9993 = (0 : α) then
-    if t9994 = (0 : α) then
+  let t9991 := (V2.length tmin sqrt ⟨m.x00, m.x01⟩)
+  let t9992 := (V2.length tmin sqrt ⟨m.x10, m.x11⟩)
+  let t9993 := (m.x10 / t9992)
+  let t9997 := (m.x00 / t9991)
+  if t9991 = (0 : α) then
+    if t9992 = (0 : α) then
       (-(atan2 m.x10 m.x00))
     else
-      (-(atan2 t9995 m.x00))
+      (-(atan2 t9993 m.x00))
   else
-    if t9994 = (0 : α) then
-      (-(atan2 m.x10 t9999))
+    if t9992 = (0 : α) then
+      (-(atan2 m.x10 t9997))
     else
-      (-(atan2 t9995 t9999))
+      (-(atan2 t9993 t9997))
 
 /-- extracted from the C++ template at T = Sym; 1 path(s) -/
 def Euler.simpleXYZRotation {α : Type} [Add α] [Sub α] (angleMod : α → α) (xyzRot : V3 α) (target : V3 α) : (V3 α) :=
@@ -473,1010 +473,1010 @@ def Euler.simpleXYZRotation {α : Type} [Add α] [Sub α] (angleMod : α → α)
 
 /-- extracted from the C++ template at T = Sym; 2 path(s) -/
 def Euler.nearestRotation_XYZ {α : Type} [Add α] [Sub α] [Mul α] [Div α] [LT α] [DecidableLT α] [OfNat α 281474976710656] [OfNat α 884279719003555] (angleMod : α → α) (xyzRot : V3 α) (target : V3 α) : (V3 α) :=
-  let t10015 := (target.x + (angleMod (xyzRot.x - target.x)))
-  let t10017 := (target.y + (angleMod (xyzRot.y - target.y)))
-  let t10019 := (target.z + (angleMod (xyzRot.z - target.z)))
-  let t10028 := (target.x + (angleMod ((((884279719003555 : α) / (281474976710656 : α)) + t10015) - target.x)))
-  let t10030 := (target.y + (angleMod ((((884279719003555 : α) / (281474976710656 : α)) - t10017) - target.y)))
-  let t10032 := (target.z + (angleMod ((((884279719003555 : α) / (281474976710656 : α)) + t10019) - target.z)))
-  let t10033 := (t10019 - target.z)
-  let t10034 := (t10017 - target.y)
-  let t10035 := (t10015 - target.x)
-  let t10036 := (t10032 - target.z)
-  let t10037 := (t10030 - target.y)
-  let t10038 := (t10028 - target.x)
-  let t10043 := (((t10035 * t10035) + (t10034 * t10034)) + (t10033 * t10033))
-  let t10048 := (((t10038 * t10038) + (t10037 * t10037)) + (t10036 * t10036))
-  if t10048 < t10043 then
-    ⟨t10028, t10030, t10032⟩
+  let t10013 := (target.x + (angleMod (xyzRot.x - target.x)))
+  let t10015 := (target.y + (angleMod (xyzRot.y - target.y)))
+  let t10017 := (target.z + (angleMod (xyzRot.z - target.z)))
+  let t10026 := (target.x + (angleMod ((((884279719003555 : α) / (281474976710656 : α)) + t10013) - target.x)))
+  let t10028 := (target.y + (angleMod ((((884279719003555 : α) / (281474976710656 : α)) - t10015) - target.y)))
+  let t10030 := (target.z + (angleMod ((((884279719003555 : α) / (281474976710656 : α)) + t10017) - target.z)))
+  let t10031 := (t10017 - target.z)
+  let t10032 := (t10015 - target.y)
+  let t10033 := (t10013 - target.x)
+  let t10034 := (t10030 - target.z)
+  let t10035 := (t10028 - target.y)
+  let t10036 := (t10026 - target.x)
+  let t10041 := (((t10033 * t10033) + (t10032 * t10032)) + (t10031 * t10031))
+  let t10046 := (((t10036 * t10036) + (t10035 * t10035)) + (t10034 * t10034))
+  if t10046 < t10041 then
+    ⟨t10026, t10028, t10030⟩
   else
-    ⟨t10015, t10017, t10019⟩
+    ⟨t10013, t10015, t10017⟩
 
 /-- extracted from the C++ template at T = Sym; 2 path(s) -/
 def Euler.makeNear_XYZ {α : Type} [Add α] [Sub α] [Mul α] [Div α] [LT α] [DecidableLT α] [OfNat α 281474976710656] [OfNat α 884279719003555] (angleMod : α → α) (a : V3 α) (t : V3 α) : ((V3 α) × Int) :=
-  let t10056 := (t.x + (angleMod (a.x - t.x)))
-  let t10058 := (t.y + (angleMod (a.y - t.y)))
-  let t10060 := (t.z + (angleMod (a.z - t.z)))
-  let t10068 := (t.x + (angleMod ((((884279719003555 : α) / (281474976710656 : α)) + t10056) - t.x)))
-  let t10070 := (t.y + (angleMod ((((884279719003555 : α) / (281474976710656 : α)) - t10058) - t.y)))
-  let t10072 := (t.z + (angleMod ((((884279719003555 : α) / (281474976710656 : α)) + t10060) - t.z)))
-  let t10073 := (t10060 - t.z)
-  let t10074 := (t10058 - t.y)
-  let t10075 := (t10056 - t.x)
-  let t10076 := (t10072 - t.z)
-  let t10077 := (t10070 - t.y)
-  let t10078 := (t10068 - t.x)
-  let t10083 := (((t10075 * t10075) + (t10074 * t10074)) + (t10073 * t10073))
-  let t10088 := (((t10078 * t10078) + (t10077 * t10077)) + (t10076 * t10076))
-  if t10088 < t10083 then
-    (⟨t10068, t10070, t10072⟩, (257 : Int))
+  let t10054 := (t.x + (angleMod (a.x - t.x)))
+  let t10056 := (t.y + (angleMod (a.y - t.y)))
+  let t10058 := (t.z + (angleMod (a.z - t.z)))
+  let t10066 := (t.x + (angleMod ((((884279719003555 : α) / (281474976710656 : α)) + t10054) - t.x)))
+  let t10068 := (t.y + (angleMod ((((884279719003555 : α) / (281474976710656 : α)) - t10056) - t.y)))
+  let t10070 := (t.z + (angleMod ((((884279719003555 : α) / (281474976710656 : α)) + t10058) - t.z)))
+  let t10071 := (t10058 - t.z)
+  let t10072 := (t10056 - t.y)
+  let t10073 := (t10054 - t.x)
+  let t10074 := (t10070 - t.z)
+  let t10075 := (t10068 - t.y)
+  let t10076 := (t10066 - t.x)
+  let t10081 := (((t10073 * t10073) + (t10072 * t10072)) + (t10071 * t10071))
+  let t10086 := (((t10076 * t10076) + (t10075 * t10075)) + (t10074 * t10074))
+  if t10086 < t10081 then
+    (⟨t10066, t10068, t10070⟩, (257 : Int))
   else
-    (⟨t10056, t10058, t10060⟩, (257 : Int))
+    (⟨t10054, t10056, t10058⟩, (257 : Int))
 
 /-- extracted from the C++ template at T = Sym; 2 path(s) -/
 def Euler.nearestRotation_XZY {α : Type} [Add α] [Sub α] [Mul α] [Div α] [LT α] [DecidableLT α] [OfNat α 281474976710656] [OfNat α 884279719003555] (angleMod : α → α) (xyzRot : V3 α) (target : V3 α) : (V3 α) :=
-  let t10015 := (target.x + (angleMod (xyzRot.x - target.x)))
-  let t10017 := (target.y + (angleMod (xyzRot.y - target.y)))
-  let t10019 := (target.z + (angleMod (xyzRot.z - target.z)))
-  let t10028 := (target.x + (angleMod ((((884279719003555 : α) / (281474976710656 : α)) + t10015) - target.x)))
-  let t10033 := (t10019 - target.z)
-  let t10034 := (t10017 - target.y)
-  let t10035 := (t10015 - target.x)
-  let t10038 := (t10028 - target.x)
-  let t10043 := (((t10035 * t10035) + (t10034 * t10034)) + (t10033 * t10033))
-  let t10094 := (target.y + (angleMod ((((884279719003555 : α) / (281474976710656 : α)) + t10017) - target.y)))
-  let t10096 := (target.z + (angleMod ((((884279719003555 : α) / (281474976710656 : α)) - t10019) - target.z)))
-  let t10097 := (t10096 - target.z)
-  let t10098 := (t10094 - target.y)
-  let t10102 := (((t10038 * t10038) + (t10098 * t10098)) + (t10097 * t10097))
-  if t10102 < t10043 then
-    ⟨t10028, t10094, t10096⟩
+  let t10013 := (target.x + (angleMod (xyzRot.x - target.x)))
+  let t10015 := (target.y + (angleMod (xyzRot.y - target.y)))
+  let t10017 := (target.z + (angleMod (xyzRot.z - target.z)))
+  let t10026 := (target.x + (angleMod ((((884279719003555 : α) / (281474976710656 : α)) + t10013) - target.x)))
+  let t10031 := (t10017 - target.z)
+  let t10032 := (t10015 - target.y)
+  let t10033 := (t10013 - target.x)
+  let t10036 := (t10026 - target.x)
+  let t10041 := (((t10033 * t10033) + (t10032 * t10032)) + (t10031 * t10031))
+  let t10092 := (target.y + (angleMod ((((884279719003555 : α) / (281474976710656 : α)) + t10015) - target.y)))
+  let t10094 := (target.z + (angleMod ((((884279719003555 : α) / (281474976710656 : α)) - t10017) - target.z)))
+  let t10095 := (t10094 - target.z)
+  let t10096 := (t10092 - target.y)
+  let t10100 := (((t10036 * t10036) + (t10096 * t10096)) + (t10095 * t10095))
+  if t10100 < t10041 then
+    ⟨t10026, t10092, t10094⟩
   else
-    ⟨t10015, t10017, t10019⟩
+    ⟨t10013, t10015, t10017⟩
 
 /-- extracted from the C++ template at T = Sym; 2 path(s) -/
 def Euler.makeNear_XZY {α : Type} [Add α] [Sub α] [Mul α] [Div α] [LT α] [DecidableLT α] [OfNat α 281474976710656] [OfNat α 884279719003555] (angleMod : α → α) (a : V3 α) (t : V3 α) : ((V3 α) × Int) :=
-  let t10056 := (t.x + (angleMod (a.x - t.x)))
-  let t10058 := (t.y + (angleMod (a.y - t.y)))
-  let t10060 := (t.z + (angleMod (a.z - t.z)))
-  let t10068 := (t.x + (angleMod ((((884279719003555 : α) / (281474976710656 : α)) + t10056) - t.x)))
-  let t10070 := (t.y + (angleMod ((((884279719003555 : α) / (281474976710656 : α)) - t10058) - t.y)))
-  let t10072 := (t.z + (angleMod ((((884279719003555 : α) / (281474976710656 : α)) + t10060) - t.z)))
-  let t10073 := (t10060 - t.z)
-  let t10074 := (t10058 - t.y)
-  let t10075 := (t10056 - t.x)
-  let t10076 := (t10072 - t.z)
-  let t10077 := (t10070 - t.y)
-  let t10078 := (t10068 - t.x)
-  let t10104 := (((t10075 * t10075) + (t10073 * t10073)) + (t10074 * t10074))
-  let t10106 := (((t10078 * t10078) + (t10076 * t10076)) + (t10077 * t10077))
-  if t10106 < t10104 then
-    (⟨t10068, t10070, t10072⟩, (1 : Int))
+  let t10054 := (t.x + (angleMod (a.x - t.x)))
+  let t10056 := (t.y + (angleMod (a.y - t.y)))
+  let t10058 := (t.z + (angleMod (a.z - t.z)))
+  let t10066 := (t.x + (angleMod ((((884279719003555 : α) / (281474976710656 : α)) + t10054) - t.x)))
+  let t10068 := (t.y + (angleMod ((((884279719003555 : α) / (281474976710656 : α)) - t10056) - t.y)))
+  let t10070 := (t.z + (angleMod ((((884279719003555 : α) / (281474976710656 : α)) + t10058) - t.z)))
+  let t10071 := (t10058 - t.z)
+  let t10072 := (t10056 - t.y)
+  let t10073 := (t10054 - t.x)
+  let t10074 := (t10070 - t.z)
+  let t10075 := (t10068 - t.y)
+  let t10076 := (t10066 - t.x)
+  let t10102 := (((t10073 * t10073) + (t10071 * t10071)) + (t10072 * t10072))
+  let t10104 := (((t10076 * t10076) + (t10074 * t10074)) + (t10075 * t10075))
+  if t10104 < t10102 then
+    (⟨t10066, t10068, t10070⟩, (1 : Int))
   else
-    (⟨t10056, t10058, t10060⟩, (1 : Int))
+    (⟨t10054, t10056, t10058⟩, (1 : Int))
 
 /-- extracted from the C++ template at T = Sym; 2 path(s) -/
 def Euler.nearestRotation_YZX {α : Type} [Add α] [Sub α] [Mul α] [Div α] [LT α] [DecidableLT α] [OfNat α 281474976710656] [OfNat α 884279719003555] (angleMod : α → α) (xyzRot : V3 α) (target : V3 α) : (V3 α) :=
-  let t10015 := (target.x + (angleMod (xyzRot.x - target.x)))
-  let t10017 := (target.y + (angleMod (xyzRot.y - target.y)))
-  let t10019 := (target.z + (angleMod (xyzRot.z - target.z)))
-  let t10028 := (target.x + (angleMod ((((884279719003555 : α) / (281474976710656 : α)) + t10015) - target.x)))
-  let t10033 := (t10019 - target.z)
-  let t10034 := (t10017 - target.y)
-  let t10035 := (t10015 - target.x)
-  let t10038 := (t10028 - target.x)
-  let t10043 := (((t10035 * t10035) + (t10034 * t10034)) + (t10033 * t10033))
-  let t10094 := (target.y + (angleMod ((((884279719003555 : α) / (281474976710656 : α)) + t10017) - target.y)))
-  let t10096 := (target.z + (angleMod ((((884279719003555 : α) / (281474976710656 : α)) - t10019) - target.z)))
-  let t10097 := (t10096 - target.z)
-  let t10098 := (t10094 - target.y)
-  let t10102 := (((t10038 * t10038) + (t10098 * t10098)) + (t10097 * t10097))
-  if t10102 < t10043 then
-    ⟨t10028, t10094, t10096⟩
+  let t10013 := (target.x + (angleMod (xyzRot.x - target.x)))
+  let t10015 := (target.y + (angleMod (xyzRot.y - target.y)))
+  let t10017 := (target.z + (angleMod (xyzRot.z - target.z)))
+  let t10026 := (target.x + (angleMod ((((884279719003555 : α) / (281474976710656 : α)) + t10013) - target.x)))
+  let t10031 := (t10017 - target.z)
+  let t10032 := (t10015 - target.y)
+  let t10033 := (t10013 - target.x)
+  let t10036 := (t10026 - target.x)
+  let t10041 := (((t10033 * t10033) + (t10032 * t10032)) + (t10031 * t10031))
+  let t10092 := (target.y + (angleMod ((((884279719003555 : α) / (281474976710656 : α)) + t10015) - target.y)))
+  let t10094 := (target.z + (angleMod ((((884279719003555 : α) / (281474976710656 : α)) - t10017) - target.z)))
+  let t10095 := (t10094 - target.z)
+  let t10096 := (t10092 - target.y)
+  let t10100 := (((t10036 * t10036) + (t10096 * t10096)) + (t10095 * t10095))
+  if t10100 < t10041 then
+    ⟨t10026, t10092, t10094⟩
   else
-    ⟨t10015, t10017, t10019⟩
+    ⟨t10013, t10015, t10017⟩
 
 /-- extracted from the C++ template at T = Sym; 2 path(s) -/
 def Euler.makeNear_YZX {α : Type} [Add α] [Sub α] [Mul α] [Div α] [LT α] [DecidableLT α] [OfNat α 281474976710656] [OfNat α 884279719003555] (angleMod : α → α) (a : V3 α) (t : V3 α) : ((V3 α) × Int) :=
-  let t10056 := (t.x + (angleMod (a.x - t.x)))
-  let t10058 := (t.y + (angleMod (a.y - t.y)))
-  let t10060 := (t.z + (angleMod (a.z - t.z)))
-  let t10068 := (t.x + (angleMod ((((884279719003555 : α) / (281474976710656 : α)) + t10056) - t.x)))
-  let t10070 := (t.y + (angleMod ((((884279719003555 : α) / (281474976710656 : α)) - t10058) - t.y)))
-  let t10072 := (t.z + (angleMod ((((884279719003555 : α) / (281474976710656 : α)) + t10060) - t.z)))
-  let t10073 := (t10060 - t.z)
-  let t10074 := (t10058 - t.y)
-  let t10075 := (t10056 - t.x)
-  let t10076 := (t10072 - t.z)
-  let t10077 := (t10070 - t.y)
-  let t10078 := (t10068 - t.x)
-  let t10108 := (((t10073 * t10073) + (t10075 * t10075)) + (t10074 * t10074))
-  let t10110 := (((t10076 * t10076) + (t10078 * t10078)) + (t10077 * t10077))
-  if t10110 < t10108 then
-    (⟨t10068, t10070, t10072⟩, (4353 : Int))
+  let t10054 := (t.x + (angleMod (a.x - t.x)))
+  let t10056 := (t.y + (angleMod (a.y - t.y)))
+  let t10058 := (t.z + (angleMod (a.z - t.z)))
+  let t10066 := (t.x + (angleMod ((((884279719003555 : α) / (281474976710656 : α)) + t10054) - t.x)))
+  let t10068 := (t.y + (angleMod ((((884279719003555 : α) / (281474976710656 : α)) - t10056) - t.y)))
+  let t10070 := (t.z + (angleMod ((((884279719003555 : α) / (281474976710656 : α)) + t10058) - t.z)))
+  let t10071 := (t10058 - t.z)
+  let t10072 := (t10056 - t.y)
+  let t10073 := (t10054 - t.x)
+  let t10074 := (t10070 - t.z)
+  let t10075 := (t10068 - t.y)
+  let t10076 := (t10066 - t.x)
+  let t10106 := (((t10071 * t10071) + (t10073 * t10073)) + (t10072 * t10072))
+  let t10108 := (((t10074 * t10074) + (t10076 * t10076)) + (t10075 * t10075))
+  if t10108 < t10106 then
+    (⟨t10066, t10068, t10070⟩, (4353 : Int))
   else
-    (⟨t10056, t10058, t10060⟩, (4353 : Int))
+    (⟨t10054, t10056, t10058⟩, (4353 : Int))
 
 /-- extracted from the C++ template at T = Sym; 2 path(s) -/
 def Euler.nearestRotation_YXZ {α : Type} [Add α] [Sub α] [Mul α] [Div α] [LT α] [DecidableLT α] [OfNat α 281474976710656] [OfNat α 884279719003555] (angleMod : α → α) (xyzRot : V3 α) (target : V3 α) : (V3 α) :=
-  let t10015 := (target.x + (angleMod (xyzRot.x - target.x)))
-  let t10017 := (target.y + (angleMod (xyzRot.y - target.y)))
-  let t10019 := (target.z + (angleMod (xyzRot.z - target.z)))
-  let t10032 := (target.z + (angleMod ((((884279719003555 : α) / (281474976710656 : α)) + t10019) - target.z)))
-  let t10033 := (t10019 - target.z)
-  let t10034 := (t10017 - target.y)
-  let t10035 := (t10015 - target.x)
-  let t10036 := (t10032 - target.z)
-  let t10043 := (((t10035 * t10035) + (t10034 * t10034)) + (t10033 * t10033))
-  let t10094 := (target.y + (angleMod ((((884279719003555 : α) / (281474976710656 : α)) + t10017) - target.y)))
-  let t10098 := (t10094 - target.y)
-  let t10114 := (target.x + (angleMod ((((884279719003555 : α) / (281474976710656 : α)) - t10015) - target.x)))
-  let t10115 := (t10114 - target.x)
-  let t10118 := (((t10115 * t10115) + (t10098 * t10098)) + (t10036 * t10036))
-  if t10118 < t10043 then
-    ⟨t10114, t10094, t10032⟩
+  let t10013 := (target.x + (angleMod (xyzRot.x - target.x)))
+  let t10015 := (target.y + (angleMod (xyzRot.y - target.y)))
+  let t10017 := (target.z + (angleMod (xyzRot.z - target.z)))
+  let t10030 := (target.z + (angleMod ((((884279719003555 : α) / (281474976710656 : α)) + t10017) - target.z)))
+  let t10031 := (t10017 - target.z)
+  let t10032 := (t10015 - target.y)
+  let t10033 := (t10013 - target.x)
+  let t10034 := (t10030 - target.z)
+  let t10041 := (((t10033 * t10033) + (t10032 * t10032)) + (t10031 * t10031))
+  let t10092 := (target.y + (angleMod ((((884279719003555 : α) / (281474976710656 : α)) + t10015) - target.y)))
+  let t10096 := (t10092 - target.y)
+  let t10112 := (target.x + (angleMod ((((884279719003555 : α) / (281474976710656 : α)) - t10013) - target.x)))
+  let t10113 := (t10112 - target.x)
+  let t10116 := (((t10113 * t10113) + (t10096 * t10096)) + (t10034 * t10034))
+  if t10116 < t10041 then
+    ⟨t10112, t10092, t10030⟩
   else
-    ⟨t10015, t10017, t10019⟩
+    ⟨t10013, t10015, t10017⟩
 
 /-- extracted from the C++ template at T = Sym; 2 path(s) -/
 def Euler.makeNear_YXZ {α : Type} [Add α] [Sub α] [Mul α] [Div α] [LT α] [DecidableLT α] [OfNat α 281474976710656] [OfNat α 884279719003555] (angleMod : α → α) (a : V3 α) (t : V3 α) : ((V3 α) × Int) :=
-  let t10056 := (t.x + (angleMod (a.x - t.x)))
-  let t10058 := (t.y + (angleMod (a.y - t.y)))
-  let t10060 := (t.z + (angleMod (a.z - t.z)))
-  let t10068 := (t.x + (angleMod ((((884279719003555 : α) / (281474976710656 : α)) + t10056) - t.x)))
-  let t10070 := (t.y + (angleMod ((((884279719003555 : α) / (281474976710656 : α)) - t10058) - t.y)))
-  let t10072 := (t.z + (angleMod ((((884279719003555 : α) / (281474976710656 : α)) + t10060) - t.z)))
-  let t10073 := (t10060 - t.z)
-  let t10074 := (t10058 - t.y)
-  let t10075 := (t10056 - t.x)
-  let t10076 := (t10072 - t.z)
-  let t10077 := (t10070 - t.y)
-  let t10078 := (t10068 - t.x)
-  let t10120 := (((t10074 * t10074) + (t10075 * t10075)) + (t10073 * t10073))
-  let t10122 := (((t10077 * t10077) + (t10078 * t10078)) + (t10076 * t10076))
-  if t10122 < t10120 then
-    (⟨t10068, t10070, t10072⟩, (4097 : Int))
+  let t10054 := (t.x + (angleMod (a.x - t.x)))
+  let t10056 := (t.y + (angleMod (a.y - t.y)))
+  let t10058 := (t.z + (angleMod (a.z - t.z)))
+  let t10066 := (t.x + (angleMod ((((884279719003555 : α) / (281474976710656 : α)) + t10054) - t.x)))
+  let t10068 := (t.y + (angleMod ((((884279719003555 : α) / (281474976710656 : α)) - t10056) - t.y)))
+  let t10070 := (t.z + (angleMod ((((884279719003555 : α) / (281474976710656 : α)) + t10058) - t.z)))
+  let t10071 := (t10058 - t.z)
+  let t10072 := (t10056 - t.y)
+  let t10073 := (t10054 - t.x)
+  let t10074 := (t10070 - t.z)
+  let t10075 := (t10068 - t.y)
+  let t10076 := (t10066 - t.x)
+  let t10118 := (((t10072 * t10072) + (t10073 * t10073)) + (t10071 * t10071))
+  let t10120 := (((t10075 * t10075) + (t10076 * t10076)) + (t10074 * t10074))
+  if t10120 < t10118 then
+    (⟨t10066, t10068, t10070⟩, (4097 : Int))
   else
-    (⟨t10056, t10058, t10060⟩, (4097 : Int))
+    (⟨t10054, t10056, t10058⟩, (4097 : Int))
 
 /-- extracted from the C++ template at T = Sym; 2 path(s) -/
 def Euler.nearestRotation_ZXY {α : Type} [Add α] [Sub α] [Mul α] [Div α] [LT α] [DecidableLT α] [OfNat α 281474976710656] [OfNat α 884279719003555] (angleMod : α → α) (xyzRot : V3 α) (target : V3 α) : (V3 α) :=
-  let t10015 := (target.x + (angleMod (xyzRot.x - target.x)))
-  let t10017 := (target.y + (angleMod (xyzRot.y - target.y)))
-  let t10019 := (target.z + (angleMod (xyzRot.z - target.z)))
-  let t10032 := (target.z + (angleMod ((((884279719003555 : α) / (281474976710656 : α)) + t10019) - target.z)))
-  let t10033 := (t10019 - target.z)
-  let t10034 := (t10017 - target.y)
-  let t10035 := (t10015 - target.x)
-  let t10036 := (t10032 - target.z)
-  let t10043 := (((t10035 * t10035) + (t10034 * t10034)) + (t10033 * t10033))
-  let t10094 := (target.y + (angleMod ((((884279719003555 : α) / (281474976710656 : α)) + t10017) - target.y)))
-  let t10098 := (t10094 - target.y)
-  let t10114 := (target.x + (angleMod ((((884279719003555 : α) / (281474976710656 : α)) - t10015) - target.x)))
-  let t10115 := (t10114 - target.x)
-  let t10118 := (((t10115 * t10115) + (t10098 * t10098)) + (t10036 * t10036))
-  if t10118 < t10043 then
-    ⟨t10114, t10094, t10032⟩
+  let t10013 := (target.x + (angleMod (xyzRot.x - target.x)))
+  let t10015 := (target.y + (angleMod (xyzRot.y - target.y)))
+  let t10017 := (target.z + (angleMod (xyzRot.z - target.z)))
+  let t10030 := (target.z + (angleMod ((((884279719003555 : α) / (281474976710656 : α)) + t10017) - target.z)))
+  let t10031 := (t10017 - target.z)
+  let t10032 := (t10015 - target.y)
+  let t10033 := (t10013 - target.x)
+  let t10034 := (t10030 - target.z)
+  let t10041 := (((t10033 * t10033) + (t10032 * t10032)) + (t10031 * t10031))
+  let t10092 := (target.y + (angleMod ((((884279719003555 : α) / (281474976710656 : α)) + t10015) - target.y)))
+  let t10096 := (t10092 - target.y)
+  let t10112 := (target.x + (angleMod ((((884279719003555 : α) / (281474976710656 : α)) - t10013) - target.x)))
+  let t10113 := (t10112 - target.x)
+  let t10116 := (((t10113 * t10113) + (t10096 * t10096)) + (t10034 * t10034))
+  if t10116 < t10041 then
+    ⟨t10112, t10092, t10030⟩
   else
-    ⟨t10015, t10017, t10019⟩
+    ⟨t10013, t10015, t10017⟩
 
 /-- extracted from the C++ template at T = Sym; 2 path(s) -/
 def Euler.makeNear_ZXY {α : Type} [Add α] [Sub α] [Mul α] [Div α] [LT α] [DecidableLT α] [OfNat α 281474976710656] [OfNat α 884279719003555] (angleMod : α → α) (a : V3 α) (t : V3 α) : ((V3 α) × Int) :=
-  let t10056 := (t.x + (angleMod (a.x - t.x)))
-  let t10058 := (t.y + (angleMod (a.y - t.y)))
-  let t10060 := (t.z + (angleMod (a.z - t.z)))
-  let t10068 := (t.x + (angleMod ((((884279719003555 : α) / (281474976710656 : α)) + t10056) - t.x)))
-  let t10070 := (t.y + (angleMod ((((884279719003555 : α) / (281474976710656 : α)) - t10058) - t.y)))
-  let t10072 := (t.z + (angleMod ((((884279719003555 : α) / (281474976710656 : α)) + t10060) - t.z)))
-  let t10073 := (t10060 - t.z)
-  let t10074 := (t10058 - t.y)
-  let t10075 := (t10056 - t.x)
-  let t10076 := (t10072 - t.z)
-  let t10077 := (t10070 - t.y)
-  let t10078 := (t10068 - t.x)
-  let t10124 := (((t10074 * t10074) + (t10073 * t10073)) + (t10075 * t10075))
-  let t10126 := (((t10077 * t10077) + (t10076 * t10076)) + (t10078 * t10078))
-  if t10126 < t10124 then
-    (⟨t10068, t10070, t10072⟩, (8449 : Int))
+  let t10054 := (t.x + (angleMod (a.x - t.x)))
+  let t10056 := (t.y + (angleMod (a.y - t.y)))
+  let t10058 := (t.z + (angleMod (a.z - t.z)))
+  let t10066 := (t.x + (angleMod ((((884279719003555 : α) / (281474976710656 : α)) + t10054) - t.x)))
+  let t10068 := (t.y + (angleMod ((((884279719003555 : α) / (281474976710656 : α)) - t10056) - t.y)))
+  let t10070 := (t.z + (angleMod ((((884279719003555 : α) / (281474976710656 : α)) + t10058) - t.z)))
+  let t10071 := (t10058 - t.z)
+  let t10072 := (t10056 - t.y)
+  let t10073 := (t10054 - t.x)
+  let t10074 := (t10070 - t.z)
+  let t10075 := (t10068 - t.y)
+  let t10076 := (t10066 - t.x)
+  let t10122 := (((t10072 * t10072) + (t10071 * t10071)) + (t10073 * t10073))
+  let t10124 := (((t10075 * t10075) + (t10074 * t10074)) + (t10076 * t10076))
+  if t10124 < t10122 then
+    (⟨t10066, t10068, t10070⟩, (8449 : Int))
   else
-    (⟨t10056, t10058, t10060⟩, (8449 : Int))
+    (⟨t10054, t10056, t10058⟩, (8449 : Int))
 
 /-- extracted from the C++ template at T = Sym; 2 path(s) -/
 def Euler.nearestRotation_ZYX {α : Type} [Add α] [Sub α] [Mul α] [Div α] [LT α] [DecidableLT α] [OfNat α 281474976710656] [OfNat α 884279719003555] (angleMod : α → α) (xyzRot : V3 α) (target : V3 α) : (V3 α) :=
-  let t10015 := (target.x + (angleMod (xyzRot.x - target.x)))
-  let t10017 := (target.y + (angleMod (xyzRot.y - target.y)))
-  let t10019 := (target.z + (angleMod (xyzRot.z - target.z)))
-  let t10028 := (target.x + (angleMod ((((884279719003555 : α) / (281474976710656 : α)) + t10015) - target.x)))
-  let t10030 := (target.y + (angleMod ((((884279719003555 : α) / (281474976710656 : α)) - t10017) - target.y)))
-  let t10032 := (target.z + (angleMod ((((884279719003555 : α) / (281474976710656 : α)) + t10019) - target.z)))
-  let t10033 := (t10019 - target.z)
-  let t10034 := (t10017 - target.y)
-  let t10035 := (t10015 - target.x)
-  let t10036 := (t10032 - target.z)
-  let t10037 := (t10030 - target.y)
-  let t10038 := (t10028 - target.x)
-  let t10043 := (((t10035 * t10035) + (t10034 * t10034)) + (t10033 * t10033))
-  let t10048 := (((t10038 * t10038) + (t10037 * t10037)) + (t10036 * t10036))
-  if t10048 < t10043 then
-    ⟨t10028, t10030, t10032⟩
+  let t10013 := (target.x + (angleMod (xyzRot.x - target.x)))
+  let t10015 := (target.y + (angleMod (xyzRot.y - target.y)))
+  let t10017 := (target.z + (angleMod (xyzRot.z - target.z)))
+  let t10026 := (target.x + (angleMod ((((884279719003555 : α) / (281474976710656 : α)) + t10013) - target.x)))
+  let t10028 := (target.y + (angleMod ((((884279719003555 : α) / (281474976710656 : α)) - t10015) - target.y)))
+  let t10030 := (target.z + (angleMod ((((884279719003555 : α) / (281474976710656 : α)) + t10017) - target.z)))
+  let t10031 := (t10017 - target.z)
+  let t10032 := (t10015 - target.y)
+  let t10033 := (t10013 - target.x)
+  let t10034 := (t10030 - target.z)
+  let t10035 := (t10028 - target.y)
+  let t10036 := (t10026 - target.x)
+  let t10041 := (((t10033 * t10033) + (t10032 * t10032)) + (t10031 * t10031))
+  let t10046 := (((t10036 * t10036) + (t10035 * t10035)) + (t10034 * t10034))
+  if t10046 < t10041 then
+    ⟨t10026, t10028, t10030⟩
   else
-    ⟨t10015, t10017, t10019⟩
+    ⟨t10013, t10015, t10017⟩
 
 /-- extracted from the C++ template at T = Sym; 2 path(s) -/
 def Euler.makeNear_ZYX {α : Type} [Add α] [Sub α] [Mul α] [Div α] [LT α] [DecidableLT α] [OfNat α 281474976710656] [OfNat α 884279719003555] (angleMod : α → α) (a : V3 α) (t : V3 α) : ((V3 α) × Int) :=
-  let t10056 := (t.x + (angleMod (a.x - t.x)))
-  let t10058 := (t.y + (angleMod (a.y - t.y)))
-  let t10060 := (t.z + (angleMod (a.z - t.z)))
-  let t10068 := (t.x + (angleMod ((((884279719003555 : α) / (281474976710656 : α)) + t10056) - t.x)))
-  let t10070 := (t.y + (angleMod ((((884279719003555 : α) / (281474976710656 : α)) - t10058) - t.y)))
-  let t10072 := (t.z + (angleMod ((((884279719003555 : α) / (281474976710656 : α)) + t10060) - t.z)))
-  let t10073 := (t10060 - t.z)
-  let t10074 := (t10058 - t.y)
-  let t10075 := (t10056 - t.x)
-  let t10076 := (t10072 - t.z)
-  let t10077 := (t10070 - t.y)
-  let t10078 := (t10068 - t.x)
-  let t10128 := (((t10073 * t10073) + (t10074 * t10074)) + (t10075 * t10075))
-  let t10130 := (((t10076 * t10076) + (t10077 * t10077)) + (t10078 * t10078))
-  if t10130 < t10128 then
-    (⟨t10068, t10070, t10072⟩, (8193 : Int))
+  let t10054 := (t.x + (angleMod (a.x - t.x)))
+  let t10056 := (t.y + (angleMod (a.y - t.y)))
+  let t10058 := (t.z + (angleMod (a.z - t.z)))
+  let t10066 := (t.x + (angleMod ((((884279719003555 : α) / (281474976710656 : α)) + t10054) - t.x)))
+  let t10068 := (t.y + (angleMod ((((884279719003555 : α) / (281474976710656 : α)) - t10056) - t.y)))
+  let t10070 := (t.z + (angleMod ((((884279719003555 : α) / (281474976710656 : α)) + t10058) - t.z)))
+  let t10071 := (t10058 - t.z)
+  let t10072 := (t10056 - t.y)
+  let t10073 := (t10054 - t.x)
+  let t10074 := (t10070 - t.z)
+  let t10075 := (t10068 - t.y)
+  let t10076 := (t10066 - t.x)
+  let t10126 := (((t10071 * t10071) + (t10072 * t10072)) + (t10073 * t10073))
+  let t10128 := (((t10074 * t10074) + (t10075 * t10075)) + (t10076 * t10076))
+  if t10128 < t10126 then
+    (⟨t10066, t10068, t10070⟩, (8193 : Int))
   else
-    (⟨t10056, t10058, t10060⟩, (8193 : Int))
+    (⟨t10054, t10056, t10058⟩, (8193 : Int))
 
 /-- extracted from the C++ template at T = Sym; 2 path(s) -/
 def Euler.nearestRotation_XZX {α : Type} [Add α] [Sub α] [Mul α] [Div α] [LT α] [DecidableLT α] [OfNat α 281474976710656] [OfNat α 884279719003555] (angleMod : α → α) (xyzRot : V3 α) (target : V3 α) : (V3 α) :=
-  let t10015 := (target.x + (angleMod (xyzRot.x - target.x)))
-  let t10017 := (target.y + (angleMod (xyzRot.y - target.y)))
-  let t10019 := (target.z + (angleMod (xyzRot.z - target.z)))
-  let t10028 := (target.x + (angleMod ((((884279719003555 : α) / (281474976710656 : α)) + t10015) - target.x)))
-  let t10033 := (t10019 - target.z)
-  let t10034 := (t10017 - target.y)
-  let t10035 := (t10015 - target.x)
-  let t10038 := (t10028 - target.x)
-  let t10043 := (((t10035 * t10035) + (t10034 * t10034)) + (t10033 * t10033))
-  let t10094 := (target.y + (angleMod ((((884279719003555 : α) / (281474976710656 : α)) + t10017) - target.y)))
-  let t10096 := (target.z + (angleMod ((((884279719003555 : α) / (281474976710656 : α)) - t10019) - target.z)))
-  let t10097 := (t10096 - target.z)
-  let t10098 := (t10094 - target.y)
-  let t10102 := (((t10038 * t10038) + (t10098 * t10098)) + (t10097 * t10097))
-  if t10102 < t10043 then
-    ⟨t10028, t10094, t10096⟩
+  let t10013 := (target.x + (angleMod (xyzRot.x - target.x)))
+  let t10015 := (target.y + (angleMod (xyzRot.y - target.y)))
+  let t10017 := (target.z + (angleMod (xyzRot.z - target.z)))
+  let t10026 := (target.x + (angleMod ((((884279719003555 : α) / (281474976710656 : α)) + t10013) - target.x)))
+  let t10031 := (t10017 - target.z)
+  let t10032 := (t10015 - target.y)
+  let t10033 := (t10013 - target.x)
+  let t10036 := (t10026 - target.x)
+  let t10041 := (((t10033 * t10033) + (t10032 * t10032)) + (t10031 * t10031))
+  let t10092 := (target.y + (angleMod ((((884279719003555 : α) / (281474976710656 : α)) + t10015) - target.y)))
+  let t10094 := (target.z + (angleMod ((((884279719003555 : α) / (281474976710656 : α)) - t10017) - target.z)))
+  let t10095 := (t10094 - target.z)
+  let t10096 := (t10092 - target.y)
+  let t10100 := (((t10036 * t10036) + (t10096 * t10096)) + (t10095 * t10095))
+  if t10100 < t10041 then
+    ⟨t10026, t10092, t10094⟩
   else
-    ⟨t10015, t10017, t10019⟩
+    ⟨t10013, t10015, t10017⟩
 
 /-- extracted from the C++ template at T = Sym; 2 path(s) -/
 def Euler.makeNear_XZX {α : Type} [Add α] [Sub α] [Mul α] [Div α] [LT α] [DecidableLT α] [OfNat α 281474976710656] [OfNat α 884279719003555] (angleMod : α → α) (a : V3 α) (t : V3 α) : ((V3 α) × Int) :=
-  let t10056 := (t.x + (angleMod (a.x - t.x)))
-  let t10058 := (t.y + (angleMod (a.y - t.y)))
-  let t10060 := (t.z + (angleMod (a.z - t.z)))
-  let t10068 := (t.x + (angleMod ((((884279719003555 : α) / (281474976710656 : α)) + t10056) - t.x)))
-  let t10070 := (t.y + (angleMod ((((884279719003555 : α) / (281474976710656 : α)) - t10058) - t.y)))
-  let t10072 := (t.z + (angleMod ((((884279719003555 : α) / (281474976710656 : α)) + t10060) - t.z)))
-  let t10073 := (t10060 - t.z)
-  let t10074 := (t10058 - t.y)
-  let t10075 := (t10056 - t.x)
-  let t10076 := (t10072 - t.z)
-  let t10077 := (t10070 - t.y)
-  let t10078 := (t10068 - t.x)
-  let t10104 := (((t10075 * t10075) + (t10073 * t10073)) + (t10074 * t10074))
-  let t10106 := (((t10078 * t10078) + (t10076 * t10076)) + (t10077 * t10077))
-  if t10106 < t10104 then
-    (⟨t10068, t10070, t10072⟩, (17 : Int))
+  let t10054 := (t.x + (angleMod (a.x - t.x)))
+  let t10056 := (t.y + (angleMod (a.y - t.y)))
+  let t10058 := (t.z + (angleMod (a.z - t.z)))
+  let t10066 := (t.x + (angleMod ((((884279719003555 : α) / (281474976710656 : α)) + t10054) - t.x)))
+  let t10068 := (t.y + (angleMod ((((884279719003555 : α) / (281474976710656 : α)) - t10056) - t.y)))
+  let t10070 := (t.z + (angleMod ((((884279719003555 : α) / (281474976710656 : α)) + t10058) - t.z)))
+  let t10071 := (t10058 - t.z)
+  let t10072 := (t10056 - t.y)
+  let t10073 := (t10054 - t.x)
+  let t10074 := (t10070 - t.z)
+  let t10075 := (t10068 - t.y)
+  let t10076 := (t10066 - t.x)
+  let t10102 := (((t10073 * t10073) + (t10071 * t10071)) + (t10072 * t10072))
+  let t10104 := (((t10076 * t10076) + (t10074 * t10074)) + (t10075 * t10075))
+  if t10104 < t10102 then
+    (⟨t10066, t10068, t10070⟩, (17 : Int))
   else
-    (⟨t10056, t10058, t10060⟩, (17 : Int))
+    (⟨t10054, t10056, t10058⟩, (17 : Int))
 
 /-- extracted from the C++ template at T = Sym; 2 path(s) -/
 def Euler.nearestRotation_XYX {α : Type} [Add α] [Sub α] [Mul α] [Div α] [LT α] [DecidableLT α] [OfNat α 281474976710656] [OfNat α 884279719003555] (angleMod : α → α) (xyzRot : V3 α) (target : V3 α) : (V3 α) :=
-  let t10015 := (target.x + (angleMod (xyzRot.x - target.x)))
-  let t10017 := (target.y + (angleMod (xyzRot.y - target.y)))
-  let t10019 := (target.z + (angleMod (xyzRot.z - target.z)))
-  let t10028 := (target.x + (angleMod ((((884279719003555 : α) / (281474976710656 : α)) + t10015) - target.x)))
-  let t10030 := (target.y + (angleMod ((((884279719003555 : α) / (281474976710656 : α)) - t10017) - target.y)))
-  let t10032 := (target.z + (angleMod ((((884279719003555 : α) / (281474976710656 : α)) + t10019) - target.z)))
-  let t10033 := (t10019 - target.z)
-  let t10034 := (t10017 - target.y)
-  let t10035 := (t10015 - target.x)
-  let t10036 := (t10032 - target.z)
-  let t10037 := (t10030 - target.y)
-  let t10038 := (t10028 - target.x)
-  let t10043 := (((t10035 * t10035) + (t10034 * t10034)) + (t10033 * t10033))
-  let t10048 := (((t10038 * t10038) + (t10037 * t10037)) + (t10036 * t10036))
-  if t10048 < t10043 then
-    ⟨t10028, t10030, t10032⟩
+  let t10013 := (target.x + (angleMod (xyzRot.x - target.x)))
+  let t10015 := (target.y + (angleMod (xyzRot.y - target.y)))
+  let t10017 := (target.z + (angleMod (xyzRot.z - target.z)))
+  let t10026 := (target.x + (angleMod ((((884279719003555 : α) / (281474976710656 : α)) + t10013) - target.x)))
+  let t10028 := (target.y + (angleMod ((((884279719003555 : α) / (281474976710656 : α)) - t10015) - target.y)))
+  let t10030 := (target.z + (angleMod ((((884279719003555 : α) / (281474976710656 : α)) + t10017) - target.z)))
+  let t10031 := (t10017 - target.z)
+  let t10032 := (t10015 - target.y)
+  let t10033 := (t10013 - target.x)
+  let t10034 := (t10030 - target.z)
+  let t10035 := (t10028 - target.y)
+  let t10036 := (t10026 - target.x)
+  let t10041 := (((t10033 * t10033) + (t10032 * t10032)) + (t10031 * t10031))
+  let t10046 := (((t10036 * t10036) + (t10035 * t10035)) + (t10034 * t10034))
+  if t10046 < t10041 then
+    ⟨t10026, t10028, t10030⟩
   else
-    ⟨t10015, t10017, t10019⟩
+    ⟨t10013, t10015, t10017⟩
 
 /-- extracted from the C++ template at T = Sym; 2 path(s) -/
 def Euler.makeNear_XYX {α : Type} [Add α] [Sub α] [Mul α] [Div α] [LT α] [DecidableLT α] [OfNat α 281474976710656] [OfNat α 884279719003555] (angleMod : α → α) (a : V3 α) (t : V3 α) : ((V3 α) × Int) :=
-  let t10056 := (t.x + (angleMod (a.x - t.x)))
-  let t10058 := (t.y + (angleMod (a.y - t.y)))
-  let t10060 := (t.z + (angleMod (a.z - t.z)))
-  let t10068 := (t.x + (angleMod ((((884279719003555 : α) / (281474976710656 : α)) + t10056) - t.x)))
-  let t10070 := (t.y + (angleMod ((((884279719003555 : α) / (281474976710656 : α)) - t10058) - t.y)))
-  let t10072 := (t.z + (angleMod ((((884279719003555 : α) / (281474976710656 : α)) + t10060) - t.z)))
-  let t10073 := (t10060 - t.z)
-  let t10074 := (t10058 - t.y)
-  let t10075 := (t10056 - t.x)
-  let t10076 := (t10072 - t.z)
-  let t10077 := (t10070 - t.y)
-  let t10078 := (t10068 - t.x)
-  let t10083 := (((t10075 * t10075) + (t10074 * t10074)) + (t10073 * t10073))
-  let t10088 := (((t10078 * t10078) + (t10077 * t10077)) + (t10076 * t10076))
-  if t10088 < t10083 then
-    (⟨t10068, t10070, t10072⟩, (273 : Int))
+  let t10054 := (t.x + (angleMod (a.x - t.x)))
+  let t10056 := (t.y + (angleMod (a.y - t.y)))
+  let t10058 := (t.z + (angleMod (a.z - t.z)))
+  let t10066 := (t.x + (angleMod ((((884279719003555 : α) / (281474976710656 : α)) + t10054) - t.x)))
+  let t10068 := (t.y + (angleMod ((((884279719003555 : α) / (281474976710656 : α)) - t10056) - t.y)))
+  let t10070 := (t.z + (angleMod ((((884279719003555 : α) / (281474976710656 : α)) + t10058) - t.z)))
+  let t10071 := (t10058 - t.z)
+  let t10072 := (t10056 - t.y)
+  let t10073 := (t10054 - t.x)
+  let t10074 := (t10070 - t.z)
+  let t10075 := (t10068 - t.y)
+  let t10076 := (t10066 - t.x)
+  let t10081 := (((t10073 * t10073) + (t10072 * t10072)) + (t10071 * t10071))
+  let t10086 := (((t10076 * t10076) + (t10075 * t10075)) + (t10074 * t10074))
+  if t10086 < t10081 then
+    (⟨t10066, t10068, t10070⟩, (273 : Int))
   else
-    (⟨t10056, t10058, t10060⟩, (273 : Int))
+    (⟨t10054, t10056, t10058⟩, (273 : Int))
 
 /-- extracted from the C++ template at T = Sym; 2 path(s) -/
 def Euler.nearestRotation_YXY {α : Type} [Add α] [Sub α] [Mul α] [Div α] [LT α] [DecidableLT α] [OfNat α 281474976710656] [OfNat α 884279719003555] (angleMod : α → α) (xyzRot : V3 α) (target : V3 α) : (V3 α) :=
-  let t10015 := (target.x + (angleMod (xyzRot.x - target.x)))
-  let t10017 := (target.y + (angleMod (xyzRot.y - target.y)))
-  let t10019 := (target.z + (angleMod (xyzRot.z - target.z)))
-  let t10032 := (target.z + (angleMod ((((884279719003555 : α) / (281474976710656 : α)) + t10019) - target.z)))
-  let t10033 := (t10019 - target.z)
-  let t10034 := (t10017 - target.y)
-  let t10035 := (t10015 - target.x)
-  let t10036 := (t10032 - target.z)
-  let t10043 := (((t10035 * t10035) + (t10034 * t10034)) + (t10033 * t10033))
-  let t10094 := (target.y + (angleMod ((((884279719003555 : α) / (281474976710656 : α)) + t10017) - target.y)))
-  let t10098 := (t10094 - target.y)
-  let t10114 := (target.x + (angleMod ((((884279719003555 : α) / (281474976710656 : α)) - t10015) - target.x)))
-  let t10115 := (t10114 - target.x)
-  let t10118 := (((t10115 * t10115) + (t10098 * t10098)) + (t10036 * t10036))
-  if t10118 < t10043 then
-    ⟨t10114, t10094, t10032⟩
+  let t10013 := (target.x + (angleMod (xyzRot.x - target.x)))
+  let t10015 := (target.y + (angleMod (xyzRot.y - target.y)))
+  let t10017 := (target.z + (angleMod (xyzRot.z - target.z)))
+  let t10030 := (target.z + (angleMod ((((884279719003555 : α) / (281474976710656 : α)) + t10017) - target.z)))
+  let t10031 := (t10017 - target.z)
+  let t10032 := (t10015 - target.y)
+  let t10033 := (t10013 - target.x)
+  let t10034 := (t10030 - target.z)
+  let t10041 := (((t10033 * t10033) + (t10032 * t10032)) + (t10031 * t10031))
+  let t10092 := (target.y + (angleMod ((((884279719003555 : α) / (281474976710656 : α)) + t10015) - target.y)))
+  let t10096 := (t10092 - target.y)
+  let t10112 := (target.x + (angleMod ((((884279719003555 : α) / (281474976710656 : α)) - t10013) - target.x)))
+  let t10113 := (t10112 - target.x)
+  let t10116 := (((t10113 * t10113) + (t10096 * t10096)) + (t10034 * t10034))
+  if t10116 < t10041 then
+    ⟨t10112, t10092, t10030⟩
   else
-    ⟨t10015, t10017, t10019⟩
+    ⟨t10013, t10015, t10017⟩
 
 /-- extracted from the C++ template at T = Sym; 2 path(s) -/
 def Euler.makeNear_YXY {α : Type} [Add α] [Sub α] [Mul α] [Div α] [LT α] [DecidableLT α] [OfNat α 281474976710656] [OfNat α 884279719003555] (angleMod : α → α) (a : V3 α) (t : V3 α) : ((V3 α) × Int) :=
-  let t10056 := (t.x + (angleMod (a.x - t.x)))
-  let t10058 := (t.y + (angleMod (a.y - t.y)))
-  let t10060 := (t.z + (angleMod (a.z - t.z)))
-  let t10068 := (t.x + (angleMod ((((884279719003555 : α) / (281474976710656 : α)) + t10056) - t.x)))
-  let t10070 := (t.y + (angleMod ((((884279719003555 : α) / (281474976710656 : α)) - t10058) - t.y)))
-  let t10072 := (t.z + (angleMod ((((884279719003555 : α) / (281474976710656 : α)) + t10060) - t.z)))
-  let t10073 := (t10060 - t.z)
-  let t10074 := (t10058 - t.y)
-  let t10075 := (t10056 - t.x)
-  let t10076 := (t10072 - t.z)
-  let t10077 := (t10070 - t.y)
-  let t10078 := (t10068 - t.x)
-  let t10120 := (((t10074 * t10074) + (t10075 * t10075)) + (t10073 * t10073))
-  let t10122 := (((t10077 * t10077) + (t10078 * t10078)) + (t10076 * t10076))
-  if t10122 < t10120 then
-    (⟨t10068, t10070, t10072⟩, (4113 : Int))
+  let t10054 := (t.x + (angleMod (a.x - t.x)))
+  let t10056 := (t.y + (angleMod (a.y - t.y)))
+  let t10058 := (t.z + (angleMod (a.z - t.z)))
+  let t10066 := (t.x + (angleMod ((((884279719003555 : α) / (281474976710656 : α)) + t10054) - t.x)))
+  let t10068 := (t.y + (angleMod ((((884279719003555 : α) / (281474976710656 : α)) - t10056) - t.y)))
+  let t10070 := (t.z + (angleMod ((((884279719003555 : α) / (281474976710656 : α)) + t10058) - t.z)))
+  let t10071 := (t10058 - t.z)
+  let t10072 := (t10056 - t.y)
+  let t10073 := (t10054 - t.x)
+  let t10074 := (t10070 - t.z)
+  let t10075 := (t10068 - t.y)
+  let t10076 := (t10066 - t.x)
+  let t10118 := (((t10072 * t10072) + (t10073 * t10073)) + (t10071 * t10071))
+  let t10120 := (((t10075 * t10075) + (t10076 * t10076)) + (t10074 * t10074))
+  if t10120 < t10118 then
+    (⟨t10066, t10068, t10070⟩, (4113 : Int))
   else
-    (⟨t10056, t10058, t10060⟩, (4113 : Int))
+    (⟨t10054, t10056, t10058⟩, (4113 : Int))
 
 /-- extracted from the C++ template at T = Sym; 2 path(s) -/
 def Euler.nearestRotation_YZY {α : Type} [Add α] [Sub α] [Mul α] [Div α] [LT α] [DecidableLT α] [OfNat α 281474976710656] [OfNat α 884279719003555] (angleMod : α → α) (xyzRot : V3 α) (target : V3 α) : (V3 α) :=
-  let t10015 := (target.x + (angleMod (xyzRot.x - target.x)))
-  let t10017 := (target.y + (angleMod (xyzRot.y - target.y)))
-  let t10019 := (target.z + (angleMod (xyzRot.z - target.z)))
-  let t10028 := (target.x + (angleMod ((((884279719003555 : α) / (281474976710656 : α)) + t10015) - target.x)))
-  let t10033 := (t10019 - target.z)
-  let t10034 := (t10017 - target.y)
-  let t10035 := (t10015 - target.x)
-  let t10038 := (t10028 - target.x)
-  let t10043 := (((t10035 * t10035) + (t10034 * t10034)) + (t10033 * t10033))
-  let t10094 := (target.y + (angleMod ((((884279719003555 : α) / (281474976710656 : α)) + t10017) - target.y)))
-  let t10096 := (target.z + (angleMod ((((884279719003555 : α) / (281474976710656 : α)) - t10019) - target.z)))
-  let t10097 := (t10096 - target.z)
-  let t10098 := (t10094 - target.y)
-  let t10102 := (((t10038 * t10038) + (t10098 * t10098)) + (t10097 * t10097))
-  if t10102 < t10043 then
-    ⟨t10028, t10094, t10096⟩
+  let t10013 := (target.x + (angleMod (xyzRot.x - target.x)))
+  let t10015 := (target.y + (angleMod (xyzRot.y - target.y)))
+  let t10017 := (target.z + (angleMod (xyzRot.z - target.z)))
+  let t10026 := (target.x + (angleMod ((((884279719003555 : α) / (281474976710656 : α)) + t10013) - target.x)))
+  let t10031 := (t10017 - target.z)
+  let t10032 := (t10015 - target.y)
+  let t10033 := (t10013 - target.x)
+  let t10036 := (t10026 - target.x)
+  let t10041 := (((t10033 * t10033) + (t10032 * t10032)) + (t10031 * t10031))
+  let t10092 := (target.y + (angleMod ((((884279719003555 : α) / (281474976710656 : α)) + t10015) - target.y)))
+  let t10094 := (target.z + (angleMod ((((884279719003555 : α) / (281474976710656 : α)) - t10017) - target.z)))
+  let t10095 := (t10094 - target.z)
+  let t10096 := (t10092 - target.y)
+  let t10100 := (((t10036 * t10036) + (t10096 * t10096)) + (t10095 * t10095))
+  if t10100 < t10041 then
+    ⟨t10026, t10092, t10094⟩
   else
-    ⟨t10015, t10017, t10019⟩
+    ⟨t10013, t10015, t10017⟩
 
 /-- extracted from the C++ template at T = Sym; 2 path(s) -/
 def Euler.makeNear_YZY {α : Type} [Add α] [Sub α] [Mul α] [Div α] [LT α] [DecidableLT α] [OfNat α 281474976710656] [OfNat α 884279719003555] (angleMod : α → α) (a : V3 α) (t : V3 α) : ((V3 α) × Int) :=
-  let t10056 := (t.x + (angleMod (a.x - t.x)))
-  let t10058 := (t.y + (angleMod (a.y - t.y)))
-  let t10060 := (t.z + (angleMod (a.z - t.z)))
-  let t10068 := (t.x + (angleMod ((((884279719003555 : α) / (281474976710656 : α)) + t10056) - t.x)))
-  let t10070 := (t.y + (angleMod ((((884279719003555 : α) / (281474976710656 : α)) - t10058) - t.y)))
-  let t10072 := (t.z + (angleMod ((((884279719003555 : α) / (281474976710656 : α)) + t10060) - t.z)))
-  let t10073 := (t10060 - t.z)
-  let t10074 := (t10058 - t.y)
-  let t10075 := (t10056 - t.x)
-  let t10076 := (t10072 - t.z)
-  let t10077 := (t10070 - t.y)
-  let t10078 := (t10068 - t.x)
-  let t10108 := (((t10073 * t10073) + (t10075 * t10075)) + (t10074 * t10074))
-  let t10110 := (((t10076 * t10076) + (t10078 * t10078)) + (t10077 * t10077))
-  if t10110 < t10108 then
-    (⟨t10068, t10070, t10072⟩, (4369 : Int))
+  let t10054 := (t.x + (angleMod (a.x - t.x)))
+  let t10056 := (t.y + (angleMod (a.y - t.y)))
+  let t10058 := (t.z + (angleMod (a.z - t.z)))
+  let t10066 := (t.x + (angleMod ((((884279719003555 : α) / (281474976710656 : α)) + t10054) - t.x)))
+  let t10068 := (t.y + (angleMod ((((884279719003555 : α) / (281474976710656 : α)) - t10056) - t.y)))
+  let t10070 := (t.z + (angleMod ((((884279719003555 : α) / (281474976710656 : α)) + t10058) - t.z)))
+  let t10071 := (t10058 - t.z)
+  let t10072 := (t10056 - t.y)
+  let t10073 := (t10054 - t.x)
+  let t10074 := (t10070 - t.z)
+  let t10075 := (t10068 - t.y)
+  let t10076 := (t10066 - t.x)
+  let t10106 := (((t10071 * t10071) + (t10073 * t10073)) + (t10072 * t10072))
+  let t10108 := (((t10074 * t10074) + (t10076 * t10076)) + (t10075 * t10075))
+  if t10108 < t10106 then
+    (⟨t10066, t10068, t10070⟩, (4369 : Int))
   else
-    (⟨t10056, t10058, t10060⟩, (4369 : Int))
+    (⟨t10054, t10056, t10058⟩, (4369 : Int))
 
 /-- extracted from the C++ template at T = Sym; 2 path(s) -/
 def Euler.nearestRotation_ZYZ {α : Type} [Add α] [Sub α] [Mul α] [Div α] [LT α] [DecidableLT α] [OfNat α 281474976710656] [OfNat α 884279719003555] (angleMod : α → α) (xyzRot : V3 α) (target : V3 α) : (V3 α) :=
-  let t10015 := (target.x + (angleMod (xyzRot.x - target.x)))
-  let t10017 := (target.y + (angleMod (xyzRot.y - target.y)))
-  let t10019 := (target.z + (angleMod (xyzRot.z - target.z)))
-  let t10028 := (target.x + (angleMod ((((884279719003555 : α) / (281474976710656 : α)) + t10015) - target.x)))
-  let t10030 := (target.y + (angleMod ((((884279719003555 : α) / (281474976710656 : α)) - t10017) - target.y)))
-  let t10032 := (target.z + (angleMod ((((884279719003555 : α) / (281474976710656 : α)) + t10019) - target.z)))
-  let t10033 := (t10019 - target.z)
-  let t10034 := (t10017 - target.y)
-  let t10035 := (t10015 - target.x)
-  let t10036 := (t10032 - target.z)
-  let t10037 := (t10030 - target.y)
-  let t10038 := (t10028 - target.x)
-  let t10043 := (((t10035 * t10035) + (t10034 * t10034)) + (t10033 * t10033))
-  let t10048 := (((t10038 * t10038) + (t10037 * t10037)) + (t10036 * t10036))
-  if t10048 < t10043 then
-    ⟨t10028, t10030, t10032⟩
+  let t10013 := (target.x + (angleMod (xyzRot.x - target.x)))
+  let t10015 := (target.y + (angleMod (xyzRot.y - target.y)))
+  let t10017 := (target.z + (angleMod (xyzRot.z - target.z)))
+  let t10026 := (target.x + (angleMod ((((884279719003555 : α) / (281474976710656 : α)) + t10013) - target.x)))
+  let t10028 := (target.y + (angleMod ((((884279719003555 : α) / (281474976710656 : α)) - t10015) - target.y)))
+  let t10030 := (target.z + (angleMod ((((884279719003555 : α) / (281474976710656 : α)) + t10017) - target.z)))
+  let t10031 := (t10017 - target.z)
+  let t10032 := (t10015 - target.y)
+  let t10033 := (t10013 - target.x)
+  let t10034 := (t10030 - target.z)
+  let t10035 := (t10028 - target.y)
+  let t10036 := (t10026 - target.x)
+  let t10041 := (((t10033 * t10033) + (t10032 * t10032)) + (t10031 * t10031))
+  let t10046 := (((t10036 * t10036) + (t10035 * t10035)) + (t10034 * t10034))
+  if t10046 < t10041 then
+    ⟨t10026, t10028, t10030⟩
   else
-    ⟨t10015, t10017, t10019⟩
+    ⟨t10013, t10015, t10017⟩
 
 /-- extracted from the C++ template at T = Sym; 2 path(s) -/
 def Euler.makeNear_ZYZ {α : Type} [Add α] [Sub α] [Mul α] [Div α] [LT α] [DecidableLT α] [OfNat α 281474976710656] [OfNat α 884279719003555] (angleMod : α → α) (a : V3 α) (t : V3 α) : ((V3 α) × Int) :=
-  let t10056 := (t.x + (angleMod (a.x - t.x)))
-  let t10058 := (t.y + (angleMod (a.y - t.y)))
-  let t10060 := (t.z + (angleMod (a.z - t.z)))
-  let t10068 := (t.x + (angleMod ((((884279719003555 : α) / (281474976710656 : α)) + t10056) - t.x)))
-  let t10070 := (t.y + (angleMod ((((884279719003555 : α) / (281474976710656 : α)) - t10058) - t.y)))
-  let t10072 := (t.z + (angleMod ((((884279719003555 : α) / (281474976710656 : α)) + t10060) - t.z)))
-  let t10073 := (t10060 - t.z)
-  let t10074 := (t10058 - t.y)
-  let t10075 := (t10056 - t.x)
-  let t10076 := (t10072 - t.z)
-  let t10077 := (t10070 - t.y)
-  let t10078 := (t10068 - t.x)
-  let t10128 := (((t10073 * t10073) + (t10074 * t10074)) + (t10075 * t10075))
-  let t10130 := (((t10076 * t10076) + (t10077 * t10077)) + (t10078 * t10078))
-  if t10130 < t10128 then
-    (⟨t10068, t10070, t10072⟩, (8209 : Int))
+  let t10054 := (t.x + (angleMod (a.x - t.x)))
+  let t10056 := (t.y + (angleMod (a.y - t.y)))
+  let t10058 := (t.z + (angleMod (a.z - t.z)))
+  let t10066 := (t.x + (angleMod ((((884279719003555 : α) / (281474976710656 : α)) + t10054) - t.x)))
+  let t10068 := (t.y + (angleMod ((((884279719003555 : α) / (281474976710656 : α)) - t10056) - t.y)))
+  let t10070 := (t.z + (angleMod ((((884279719003555 : α) / (281474976710656 : α)) + t10058) - t.z)))
+  let t10071 := (t10058 - t.z)
+  let t10072 := (t10056 - t.y)
+  let t10073 := (t10054 - t.x)
+  let t10074 := (t10070 - t.z)
+  let t10075 := (t10068 - t.y)
+  let t10076 := (t10066 - t.x)
+  let t10126 := (((t10071 * t10071) + (t10072 * t10072)) + (t10073 * t10073))
+  let t10128 := (((t10074 * t10074) + (t10075 * t10075)) + (t10076 * t10076))
+  if t10128 < t10126 then
+    (⟨t10066, t10068, t10070⟩, (8209 : Int))
   else
-    (⟨t10056, t10058, t10060⟩, (8209 : Int))
+    (⟨t10054, t10056, t10058⟩, (8209 : Int))
 
 /-- extracted from the C++ template at T = Sym; 2 path(s) -/
 def Euler.nearestRotation_ZXZ {α : Type} [Add α] [Sub α] [Mul α] [Div α] [LT α] [DecidableLT α] [OfNat α 281474976710656] [OfNat α 884279719003555] (angleMod : α → α) (xyzRot : V3 α) (target : V3 α) : (V3 α) :=
-  let t10015 := (target.x + (angleMod (xyzRot.x - target.x)))
-  let t10017 := (target.y + (angleMod (xyzRot.y - target.y)))
-  let t10019 := (target.z + (angleMod (xyzRot.z - target.z)))
-  let t10032 := (target.z + (angleMod ((((884279719003555 : α) / (281474976710656 : α)) + t10019) - target.z)))
-  let t10033 := (t10019 - target.z)
-  let t10034 := (t10017 - target.y)
-  let t10035 := (t10015 - target.x)
-  let t10036 := (t10032 - target.z)
-  let t10043 := (((t10035 * t10035) + (t10034 * t10034)) + (t10033 * t10033))
-  let t10094 := (target.y + (angleMod ((((884279719003555 : α) / (281474976710656 : α)) + t10017) - target.y)))
-  let t10098 := (t10094 - target.y)
-  let t10114 := (target.x + (angleMod ((((884279719003555 : α) / (281474976710656 : α)) - t10015) - target.x)))
-  let t10115 := (t10114 - target.x)
-  let t10118 := (((t10115 * t10115) + (t10098 * t10098)) + (t10036 * t10036))
-  if t10118 < t10043 then
-    ⟨t10114, t10094, t10032⟩
+  let t10013 := (target.x + (angleMod (xyzRot.x - target.x)))
+  let t10015 := (target.y + (angleMod (xyzRot.y - target.y)))
+  let t10017 := (target.z + (angleMod (xyzRot.z - target.z)))
+  let t10030 := (target.z + (angleMod ((((884279719003555 : α) / (281474976710656 : α)) + t10017) - target.z)))
+  let t10031 := (t10017 - target.z)
+  let t10032 := (t10015 - target.y)
+  let t10033 := (t10013 - target.x)
+  let t10034 := (t10030 - target.z)
+  let t10041 := (((t10033 * t10033) + (t10032 * t10032)) + (t10031 * t10031))
+  let t10092 := (target.y + (angleMod ((((884279719003555 : α) / (281474976710656 : α)) + t10015) - target.y)))
+  let t10096 := (t10092 - target.y)
+  let t10112 := (target.x + (angleMod ((((884279719003555 : α) / (281474976710656 : α)) - t10013) - target.x)))
+  let t10113 := (t10112 - target.x)
+  let t10116 := (((t10113 * t10113) + (t10096 * t10096)) + (t10034 * t10034))
+  if t10116 < t10041 then
+    ⟨t10112, t10092, t10030⟩
   else
-    ⟨t10015, t10017, t10019⟩
+    ⟨t10013, t10015, t10017⟩
 
 /-- extracted from the C++ template at T = Sym; 2 path(s) -/
 def Euler.makeNear_ZXZ {α : Type} [Add α] [Sub α] [Mul α] [Div α] [LT α] [DecidableLT α] [OfNat α 281474976710656] [OfNat α 884279719003555] (angleMod : α → α) (a : V3 α) (t : V3 α) : ((V3 α) × Int) :=
-  let t10056 := (t.x + (angleMod (a.x - t.x)))
-  let t10058 := (t.y + (angleMod (a.y - t.y)))
-  let t10060 := (t.z + (angleMod (a.z - t.z)))
-  let t10068 := (t.x + (angleMod ((((884279719003555 : α) / (281474976710656 : α)) + t10056) - t.x)))
-  let t10070 := (t.y + (angleMod ((((884279719003555 : α) / (281474976710656 : α)) - t10058) - t.y)))
-  let t10072 := (t.z + (angleMod ((((884279719003555 : α) / (281474976710656 : α)) + t10060) - t.z)))
-  let t10073 := (t10060 - t.z)
-  let t10074 := (t10058 - t.y)
-  let t10075 := (t10056 - t.x)
-  let t10076 := (t10072 - t.z)
-  let t10077 := (t10070 - t.y)
-  let t10078 := (t10068 - t.x)
-  let t10124 := (((t10074 * t10074) + (t10073 * t10073)) + (t10075 * t10075))
-  let t10126 := (((t10077 * t10077) + (t10076 * t10076)) + (t10078 * t10078))
-  if t10126 < t10124 then
-    (⟨t10068, t10070, t10072⟩, (8465 : Int))
+  let t10054 := (t.x + (angleMod (a.x - t.x)))
+  let t10056 := (t.y + (angleMod (a.y - t.y)))
+  let t10058 := (t.z + (angleMod (a.z - t.z)))
+  let t10066 := (t.x + (angleMod ((((884279719003555 : α) / (281474976710656 : α)) + t10054) - t.x)))
+  let t10068 := (t.y + (angleMod ((((884279719003555 : α) / (281474976710656 : α)) - t10056) - t.y)))
+  let t10070 := (t.z + (angleMod ((((884279719003555 : α) / (281474976710656 : α)) + t10058) - t.z)))
+  let t10071 := (t10058 - t.z)
+  let t10072 := (t10056 - t.y)
+  let t10073 := (t10054 - t.x)
+  let t10074 := (t10070 - t.z)
+  let t10075 := (t10068 - t.y)
+  let t10076 := (t10066 - t.x)
+  let t10122 := (((t10072 * t10072) + (t10071 * t10071)) + (t10073 * t10073))
+  let t10124 := (((t10075 * t10075) + (t10074 * t10074)) + (t10076 * t10076))
+  if t10124 < t10122 then
+    (⟨t10066, t10068, t10070⟩, (8465 : Int))
   else
-    (⟨t10056, t10058, t10060⟩, (8465 : Int))
+    (⟨t10054, t10056, t10058⟩, (8465 : Int))
 
 /-- extracted from the C++ template at T = Sym; 2 path(s) -/
 def Euler.nearestRotation_XYZr {α : Type} [Add α] [Sub α] [Mul α] [Div α] [LT α] [DecidableLT α] [OfNat α 281474976710656] [OfNat α 884279719003555] (angleMod : α → α) (xyzRot : V3 α) (target : V3 α) : (V3 α) :=
-  let t10015 := (target.x + (angleMod (xyzRot.x - target.x)))
-  let t10017 := (target.y + (angleMod (xyzRot.y - target.y)))
-  let t10019 := (target.z + (angleMod (xyzRot.z - target.z)))
-  let t10028 := (target.x + (angleMod ((((884279719003555 : α) / (281474976710656 : α)) + t10015) - target.x)))
-  let t10030 := (target.y + (angleMod ((((884279719003555 : α) / (281474976710656 : α)) - t10017) - target.y)))
-  let t10032 := (target.z + (angleMod ((((884279719003555 : α) / (281474976710656 : α)) + t10019) - target.z)))
-  let t10033 := (t10019 - target.z)
-  let t10034 := (t10017 - target.y)
-  let t10035 := (t10015 - target.x)
-  let t10036 := (t10032 - target.z)
-  let t10037 := (t10030 - target.y)
-  let t10038 := (t10028 - target.x)
-  let t10043 := (((t10035 * t10035) + (t10034 * t10034)) + (t10033 * t10033))
-  let t10048 := (((t10038 * t10038) + (t10037 * t10037)) + (t10036 * t10036))
-  if t10048 < t10043 then
-    ⟨t10028, t10030, t10032⟩
+  let t10013 := (target.x + (angleMod (xyzRot.x - target.x)))
+  let t10015 := (target.y + (angleMod (xyzRot.y - target.y)))
+  let t10017 := (target.z + (angleMod (xyzRot.z - target.z)))
+  let t10026 := (target.x + (angleMod ((((884279719003555 : α) / (281474976710656 : α)) + t10013) - target.x)))
+  let t10028 := (target.y + (angleMod ((((884279719003555 : α) / (281474976710656 : α)) - t10015) - target.y)))
+  let t10030 := (target.z + (angleMod ((((884279719003555 : α) / (281474976710656 : α)) + t10017) - target.z)))
+  let t10031 := (t10017 - target.z)
+  let t10032 := (t10015 - target.y)
+  let t10033 := (t10013 - target.x)
+  let t10034 := (t10030 - target.z)
+  let t10035 := (t10028 - target.y)
+  let t10036 := (t10026 - target.x)
+  let t10041 := (((t10033 * t10033) + (t10032 * t10032)) + (t10031 * t10031))
+  let t10046 := (((t10036 * t10036) + (t10035 * t10035)) + (t10034 * t10034))
+  if t10046 < t10041 then
+    ⟨t10026, t10028, t10030⟩
   else
-    ⟨t10015, t10017, t10019⟩
+    ⟨t10013, t10015, t10017⟩
 
 /-- extracted from the C++ template at T = Sym; 2 path(s) -/
 def Euler.makeNear_XYZr {α : Type} [Add α] [Sub α] [Mul α] [Div α] [LT α] [DecidableLT α] [OfNat α 281474976710656] [OfNat α 884279719003555] (angleMod : α → α) (a : V3 α) (t : V3 α) : ((V3 α) × Int) :=
-  let t10056 := (t.x + (angleMod (a.x - t.x)))
-  let t10058 := (t.y + (angleMod (a.y - t.y)))
-  let t10060 := (t.z + (angleMod (a.z - t.z)))
-  let t10068 := (t.x + (angleMod ((((884279719003555 : α) / (281474976710656 : α)) + t10056) - t.x)))
-  let t10070 := (t.y + (angleMod ((((884279719003555 : α) / (281474976710656 : α)) - t10058) - t.y)))
-  let t10072 := (t.z + (angleMod ((((884279719003555 : α) / (281474976710656 : α)) + t10060) - t.z)))
-  let t10073 := (t10060 - t.z)
-  let t10074 := (t10058 - t.y)
-  let t10075 := (t10056 - t.x)
-  let t10076 := (t10072 - t.z)
-  let t10077 := (t10070 - t.y)
-  let t10078 := (t10068 - t.x)
-  let t10128 := (((t10073 * t10073) + (t10074 * t10074)) + (t10075 * t10075))
-  let t10130 := (((t10076 * t10076) + (t10077 * t10077)) + (t10078 * t10078))
-  if t10130 < t10128 then
-    (⟨t10068, t10070, t10072⟩, (8192 : Int))
+  let t10054 := (t.x + (angleMod (a.x - t.x)))
+  let t10056 := (t.y + (angleMod (a.y - t.y)))
+  let t10058 := (t.z + (angleMod (a.z - t.z)))
+  let t10066 := (t.x + (angleMod ((((884279719003555 : α) / (281474976710656 : α)) + t10054) - t.x)))
+  let t10068 := (t.y + (angleMod ((((884279719003555 : α) / (281474976710656 : α)) - t10056) - t.y)))
+  let t10070 := (t.z + (angleMod ((((884279719003555 : α) / (281474976710656 : α)) + t10058) - t.z)))
+  let t10071 := (t10058 - t.z)
+  let t10072 := (t10056 - t.y)
+  let t10073 := (t10054 - t.x)
+  let t10074 := (t10070 - t.z)
+  let t10075 := (t10068 - t.y)
+  let t10076 := (t10066 - t.x)
+  let t10126 := (((t10071 * t10071) + (t10072 * t10072)) + (t10073 * t10073))
+  let t10128 := (((t10074 * t10074) + (t10075 * t10075)) + (t10076 * t10076))
+  if t10128 < t10126 then
+    (⟨t10066, t10068, t10070⟩, (8192 : Int))
   else
-    (⟨t10056, t10058, t10060⟩, (8192 : Int))
+    (⟨t10054, t10056, t10058⟩, (8192 : Int))
 
 /-- extracted from the C++ template at T = Sym; 2 path(s) -/
 def Euler.nearestRotation_XZYr {α : Type} [Add α] [Sub α] [Mul α] [Div α] [LT α] [DecidableLT α] [OfNat α 281474976710656] [OfNat α 884279719003555] (angleMod : α → α) (xyzRot : V3 α) (target : V3 α) : (V3 α) :=
-  let t10015 := (target.x + (angleMod (xyzRot.x - target.x)))
-  let t10017 := (target.y + (angleMod (xyzRot.y - target.y)))
-  let t10019 := (target.z + (angleMod (xyzRot.z - target.z)))
-  let t10032 := (target.z + (angleMod ((((884279719003555 : α) / (281474976710656 : α)) + t10019) - target.z)))
-  let t10033 := (t10019 - target.z)
-  let t10034 := (t10017 - target.y)
-  let t10035 := (t10015 - target.x)
-  let t10036 := (t10032 - target.z)
-  let t10043 := (((t10035 * t10035) + (t10034 * t10034)) + (t10033 * t10033))
-  let t10094 := (target.y + (angleMod ((((884279719003555 : α) / (281474976710656 : α)) + t10017) - target.y)))
-  let t10098 := (t10094 - target.y)
-  let t10114 := (target.x + (angleMod ((((884279719003555 : α) / (281474976710656 : α)) - t10015) - target.x)))
-  let t10115 := (t10114 - target.x)
-  let t10118 := (((t10115 * t10115) + (t10098 * t10098)) + (t10036 * t10036))
-  if t10118 < t10043 then
-    ⟨t10114, t10094, t10032⟩
+  let t10013 := (target.x + (angleMod (xyzRot.x - target.x)))
+  let t10015 := (target.y + (angleMod (xyzRot.y - target.y)))
+  let t10017 := (target.z + (angleMod (xyzRot.z - target.z)))
+  let t10030 := (target.z + (angleMod ((((884279719003555 : α) / (281474976710656 : α)) + t10017) - target.z)))
+  let t10031 := (t10017 - target.z)
+  let t10032 := (t10015 - target.y)
+  let t10033 := (t10013 - target.x)
+  let t10034 := (t10030 - target.z)
+  let t10041 := (((t10033 * t10033) + (t10032 * t10032)) + (t10031 * t10031))
+  let t10092 := (target.y + (angleMod ((((884279719003555 : α) / (281474976710656 : α)) + t10015) - target.y)))
+  let t10096 := (t10092 - target.y)
+  let t10112 := (target.x + (angleMod ((((884279719003555 : α) / (281474976710656 : α)) - t10013) - target.x)))
+  let t10113 := (t10112 - target.x)
+  let t10116 := (((t10113 * t10113) + (t10096 * t10096)) + (t10034 * t10034))
+  if t10116 < t10041 then
+    ⟨t10112, t10092, t10030⟩
   else
-    ⟨t10015, t10017, t10019⟩
+    ⟨t10013, t10015, t10017⟩
 
 /-- extracted from the C++ template at T = Sym; 2 path(s) -/
 def Euler.makeNear_XZYr {α : Type} [Add α] [Sub α] [Mul α] [Div α] [LT α] [DecidableLT α] [OfNat α 281474976710656] [OfNat α 884279719003555] (angleMod : α → α) (a : V3 α) (t : V3 α) : ((V3 α) × Int) :=
-  let t10056 := (t.x + (angleMod (a.x - t.x)))
-  let t10058 := (t.y + (angleMod (a.y - t.y)))
-  let t10060 := (t.z + (angleMod (a.z - t.z)))
-  let t10068 := (t.x + (angleMod ((((884279719003555 : α) / (281474976710656 : α)) + t10056) - t.x)))
-  let t10070 := (t.y + (angleMod ((((884279719003555 : α) / (281474976710656 : α)) - t10058) - t.y)))
-  let t10072 := (t.z + (angleMod ((((884279719003555 : α) / (281474976710656 : α)) + t10060) - t.z)))
-  let t10073 := (t10060 - t.z)
-  let t10074 := (t10058 - t.y)
-  let t10075 := (t10056 - t.x)
-  let t10076 := (t10072 - t.z)
-  let t10077 := (t10070 - t.y)
-  let t10078 := (t10068 - t.x)
-  let t10124 := (((t10074 * t10074) + (t10073 * t10073)) + (t10075 * t10075))
-  let t10126 := (((t10077 * t10077) + (t10076 * t10076)) + (t10078 * t10078))
-  if t10126 < t10124 then
-    (⟨t10068, t10070, t10072⟩, (8448 : Int))
+  let t10054 := (t.x + (angleMod (a.x - t.x)))
+  let t10056 := (t.y + (angleMod (a.y - t.y)))
+  let t10058 := (t.z + (angleMod (a.z - t.z)))
+  let t10066 := (t.x + (angleMod ((((884279719003555 : α) / (281474976710656 : α)) + t10054) - t.x)))
+  let t10068 := (t.y + (angleMod ((((884279719003555 : α) / (281474976710656 : α)) - t10056) - t.y)))
+  let t10070 := (t.z + (angleMod ((((884279719003555 : α) / (281474976710656 : α)) + t10058) - t.z)))
+  let t10071 := (t10058 - t.z)
+  let t10072 := (t10056 - t.y)
+  let t10073 := (t10054 - t.x)
+  let t10074 := (t10070 - t.z)
+  let t10075 := (t10068 - t.y)
+  let t10076 := (t10066 - t.x)
+  let t10122 := (((t10072 * t10072) + (t10071 * t10071)) + (t10073 * t10073))
+  let t10124 := (((t10075 * t10075) + (t10074 * t10074)) + (t10076 * t10076))
+  if t10124 < t10122 then
+    (⟨t10066, t10068, t10070⟩, (8448 : Int))
   else
-    (⟨t10056, t10058, t10060⟩, (8448 : Int))
+    (⟨t10054, t10056, t10058⟩, (8448 : Int))
 
 /-- extracted from the C++ template at T = Sym; 2 path(s) -/
 def Euler.nearestRotation_YZXr {α : Type} [Add α] [Sub α] [Mul α] [Div α] [LT α] [DecidableLT α] [OfNat α 281474976710656] [OfNat α 884279719003555] (angleMod : α → α) (xyzRot : V3 α) (target : V3 α) : (V3 α) :=
-  let t10015 := (target.x + (angleMod (xyzRot.x - target.x)))
-  let t10017 := (target.y + (angleMod (xyzRot.y - target.y)))
-  let t10019 := (target.z + (angleMod (xyzRot.z - target.z)))
-  let t10032 := (target.z + (angleMod ((((884279719003555 : α) / (281474976710656 : α)) + t10019) - target.z)))
-  let t10033 := (t10019 - target.z)
-  let t10034 := (t10017 - target.y)
-  let t10035 := (t10015 - target.x)
-  let t10036 := (t10032 - target.z)
-  let t10043 := (((t10035 * t10035) + (t10034 * t10034)) + (t10033 * t10033))
-  let t10094 := (target.y + (angleMod ((((884279719003555 : α) / (281474976710656 : α)) + t10017) - target.y)))
-  let t10098 := (t10094 - target.y)
-  let t10114 := (target.x + (angleMod ((((884279719003555 : α) / (281474976710656 : α)) - t10015) - target.x)))
-  let t10115 := (t10114 - target.x)
-  let t10118 := (((t10115 * t10115) + (t10098 * t10098)) + (t10036 * t10036))
-  if t10118 < t10043 then
-    ⟨t10114, t10094, t10032⟩
+  let t10013 := (target.x + (angleMod (xyzRot.x - target.x)))
+  let t10015 := (target.y + (angleMod (xyzRot.y - target.y)))
+  let t10017 := (target.z + (angleMod (xyzRot.z - target.z)))
+  let t10030 := (target.z + (angleMod ((((884279719003555 : α) / (281474976710656 : α)) + t10017) - target.z)))
+  let t10031 := (t10017 - target.z)
+  let t10032 := (t10015 - target.y)
+  let t10033 := (t10013 - target.x)
+  let t10034 := (t10030 - target.z)
+  let t10041 := (((t10033 * t10033) + (t10032 * t10032)) + (t10031 * t10031))
+  let t10092 := (target.y + (angleMod ((((884279719003555 : α) / (281474976710656 : α)) + t10015) - target.y)))
+  let t10096 := (t10092 - target.y)
+  let t10112 := (target.x + (angleMod ((((884279719003555 : α) / (281474976710656 : α)) - t10013) - target.x)))
+  let t10113 := (t10112 - target.x)
+  let t10116 := (((t10113 * t10113) + (t10096 * t10096)) + (t10034 * t10034))
+  if t10116 < t10041 then
+    ⟨t10112, t10092, t10030⟩
   else
-    ⟨t10015, t10017, t10019⟩
+    ⟨t10013, t10015, t10017⟩
 
 /-- extracted from the C++ template at T = Sym; 2 path(s) -/
 def Euler.makeNear_YZXr {α : Type} [Add α] [Sub α] [Mul α] [Div α] [LT α] [DecidableLT α] [OfNat α 281474976710656] [OfNat α 884279719003555] (angleMod : α → α) (a : V3 α) (t : V3 α) : ((V3 α) × Int) :=
-  let t10056 := (t.x + (angleMod (a.x - t.x)))
-  let t10058 := (t.y + (angleMod (a.y - t.y)))
-  let t10060 := (t.z + (angleMod (a.z - t.z)))
-  let t10068 := (t.x + (angleMod ((((884279719003555 : α) / (281474976710656 : α)) + t10056) - t.x)))
-  let t10070 := (t.y + (angleMod ((((884279719003555 : α) / (281474976710656 : α)) - t10058) - t.y)))
-  let t10072 := (t.z + (angleMod ((((884279719003555 : α) / (281474976710656 : α)) + t10060) - t.z)))
-  let t10073 := (t10060 - t.z)
-  let t10074 := (t10058 - t.y)
-  let t10075 := (t10056 - t.x)
-  let t10076 := (t10072 - t.z)
-  let t10077 := (t10070 - t.y)
-  let t10078 := (t10068 - t.x)
-  let t10120 := (((t10074 * t10074) + (t10075 * t10075)) + (t10073 * t10073))
-  let t10122 := (((t10077 * t10077) + (t10078 * t10078)) + (t10076 * t10076))
-  if t10122 < t10120 then
-    (⟨t10068, t10070, t10072⟩, (4096 : Int))
+  let t10054 := (t.x + (angleMod (a.x - t.x)))
+  let t10056 := (t.y + (angleMod (a.y - t.y)))
+  let t10058 := (t.z + (angleMod (a.z - t.z)))
+  let t10066 := (t.x + (angleMod ((((884279719003555 : α) / (281474976710656 : α)) + t10054) - t.x)))
+  let t10068 := (t.y + (angleMod ((((884279719003555 : α) / (281474976710656 : α)) - t10056) - t.y)))
+  let t10070 := (t.z + (angleMod ((((884279719003555 : α) / (281474976710656 : α)) + t10058) - t.z)))
+  let t10071 := (t10058 - t.z)
+  let t10072 := (t10056 - t.y)
+  let t10073 := (t10054 - t.x)
+  let t10074 := (t10070 - t.z)
+  let t10075 := (t10068 - t.y)
+  let t10076 := (t10066 - t.x)
+  let t10118 := (((t10072 * t10072) + (t10073 * t10073)) + (t10071 * t10071))
+  let t10120 := (((t10075 * t10075) + (t10076 * t10076)) + (t10074 * t10074))
+  if t10120 < t10118 then
+    (⟨t10066, t10068, t10070⟩, (4096 : Int))
   else
-    (⟨t10056, t10058, t10060⟩, (4096 : Int))
+    (⟨t10054, t10056, t10058⟩, (4096 : Int))
 
 /-- extracted from the C++ template at T = Sym; 2 path(s) -/
 def Euler.nearestRotation_YXZr {α : Type} [Add α] [Sub α] [Mul α] [Div α] [LT α] [DecidableLT α] [OfNat α 281474976710656] [OfNat α 884279719003555] (angleMod : α → α) (xyzRot : V3 α) (target : V3 α) : (V3 α) :=
-  let t10015 := (target.x + (angleMod (xyzRot.x - target.x)))
-  let t10017 := (target.y + (angleMod (xyzRot.y - target.y)))
-  let t10019 := (target.z + (angleMod (xyzRot.z - target.z)))
-  let t10028 := (target.x + (angleMod ((((884279719003555 : α) / (281474976710656 : α)) + t10015) - target.x)))
-  let t10033 := (t10019 - target.z)
-  let t10034 := (t10017 - target.y)
-  let t10035 := (t10015 - target.x)
-  let t10038 := (t10028 - target.x)
-  let t10043 := (((t10035 * t10035) + (t10034 * t10034)) + (t10033 * t10033))
-  let t10094 := (target.y + (angleMod ((((884279719003555 : α) / (281474976710656 : α)) + t10017) - target.y)))
-  let t10096 := (target.z + (angleMod ((((884279719003555 : α) / (281474976710656 : α)) - t10019) - target.z)))
-  let t10097 := (t10096 - target.z)
-  let t10098 := (t10094 - target.y)
-  let t10102 := (((t10038 * t10038) + (t10098 * t10098)) + (t10097 * t10097))
-  if t10102 < t10043 then
-    ⟨t10028, t10094, t10096⟩
+  let t10013 := (target.x + (angleMod (xyzRot.x - target.x)))
+  let t10015 := (target.y + (angleMod (xyzRot.y - target.y)))
+  let t10017 := (target.z + (angleMod (xyzRot.z - target.z)))
+  let t10026 := (target.x + (angleMod ((((884279719003555 : α) / (281474976710656 : α)) + t10013) - target.x)))
+  let t10031 := (t10017 - target.z)
+  let t10032 := (t10015 - target.y)
+  let t10033 := (t10013 - target.x)
+  let t10036 := (t10026 - target.x)
+  let t10041 := (((t10033 * t10033) + (t10032 * t10032)) + (t10031 * t10031))
+  let t10092 := (target.y + (angleMod ((((884279719003555 : α) / (281474976710656 : α)) + t10015) - target.y)))
+  let t10094 := (target.z + (angleMod ((((884279719003555 : α) / (281474976710656 : α)) - t10017) - target.z)))
+  let t10095 := (t10094 - target.z)
+  let t10096 := (t10092 - target.y)
+  let t10100 := (((t10036 * t10036) + (t10096 * t10096)) + (t10095 * t10095))
+  if t10100 < t10041 then
+    ⟨t10026, t10092, t10094⟩
   else
-    ⟨t10015, t10017, t10019⟩
+    ⟨t10013, t10015, t10017⟩
 
 /-- extracted from the C++ template at T = Sym; 2 path(s) -/
 def Euler.makeNear_YXZr {α : Type} [Add α] [Sub α] [Mul α] [Div α] [LT α] [DecidableLT α] [OfNat α 281474976710656] [OfNat α 884279719003555] (angleMod : α → α) (a : V3 α) (t : V3 α) : ((V3 α) × Int) :=
-  let t10056 := (t.x + (angleMod (a.x - t.x)))
-  let t10058 := (t.y + (angleMod (a.y - t.y)))
-  let t10060 := (t.z + (angleMod (a.z - t.z)))
-  let t10068 := (t.x + (angleMod ((((884279719003555 : α) / (281474976710656 : α)) + t10056) - t.x)))
-  let t10070 := (t.y + (angleMod ((((884279719003555 : α) / (281474976710656 : α)) - t10058) - t.y)))
-  let t10072 := (t.z + (angleMod ((((884279719003555 : α) / (281474976710656 : α)) + t10060) - t.z)))
-  let t10073 := (t10060 - t.z)
-  let t10074 := (t10058 - t.y)
-  let t10075 := (t10056 - t.x)
-  let t10076 := (t10072 - t.z)
-  let t10077 := (t10070 - t.y)
-  let t10078 := (t10068 - t.x)
-  let t10108 := (((t10073 * t10073) + (t10075 * t10075)) + (t10074 * t10074))
-  let t10110 := (((t10076 * t10076) + (t10078 * t10078)) + (t10077 * t10077))
-  if t10110 < t10108 then
-    (⟨t10068, t10070, t10072⟩, (4352 : Int))
+  let t10054 := (t.x + (angleMod (a.x - t.x)))
+  let t10056 := (t.y + (angleMod (a.y - t.y)))
+  let t10058 := (t.z + (angleMod (a.z - t.z)))
+  let t10066 := (t.x + (angleMod ((((884279719003555 : α) / (281474976710656 : α)) + t10054) - t.x)))
+  let t10068 := (t.y + (angleMod ((((884279719003555 : α) / (281474976710656 : α)) - t10056) - t.y)))
+  let t10070 := (t.z + (angleMod ((((884279719003555 : α) / (281474976710656 : α)) + t10058) - t.z)))
+  let t10071 := (t10058 - t.z)
+  let t10072 := (t10056 - t.y)
+  let t10073 := (t10054 - t.x)
+  let t10074 := (t10070 - t.z)
+  let t10075 := (t10068 - t.y)
+  let t10076 := (t10066 - t.x)
+  let t10106 := (((t10071 * t10071) + (t10073 * t10073)) + (t10072 * t10072))
+  let t10108 := (((t10074 * t10074) + (t10076 * t10076)) + (t10075 * t10075))
+  if t10108 < t10106 then
+    (⟨t10066, t10068, t10070⟩, (4352 : Int))
   else
-    (⟨t10056, t10058, t10060⟩, (4352 : Int))
+    (⟨t10054, t10056, t10058⟩, (4352 : Int))
 
 /-- extracted from the C++ template at T = Sym; 2 path(s) -/
 def Euler.nearestRotation_ZXYr {α : Type} [Add α] [Sub α] [Mul α] [Div α] [LT α] [DecidableLT α] [OfNat α 281474976710656] [OfNat α 884279719003555] (angleMod : α → α) (xyzRot : V3 α) (target : V3 α) : (V3 α) :=
-  let t10015 := (target.x + (angleMod (xyzRot.x - target.x)))
-  let t10017 := (target.y + (angleMod (xyzRot.y - target.y)))
-  let t10019 := (target.z + (angleMod (xyzRot.z - target.z)))
-  let t10028 := (target.x + (angleMod ((((884279719003555 : α) / (281474976710656 : α)) + t10015) - target.x)))
-  let t10033 := (t10019 - target.z)
-  let t10034 := (t10017 - target.y)
-  let t10035 := (t10015 - target.x)
-  let t10038 := (t10028 - target.x)
-  let t10043 := (((t10035 * t10035) + (t10034 * t10034)) + (t10033 * t10033))
-  let t10094 := (target.y + (angleMod ((((884279719003555 : α) / (281474976710656 : α)) + t10017) - target.y)))
-  let t10096 := (target.z + (angleMod ((((884279719003555 : α) / (281474976710656 : α)) - t10019) - target.z)))
-  let t10097 := (t10096 - target.z)
-  let t10098 := (t10094 - target.y)
-  let t10102 := (((t10038 * t10038) + (t10098 * t10098)) + (t10097 * t10097))
-  if t10102 < t10043 then
-    ⟨t10028, t10094, t10096⟩
+  let t10013 := (target.x + (angleMod (xyzRot.x - target.x)))
+  let t10015 := (target.y + (angleMod (xyzRot.y - target.y)))
+  let t10017 := (target.z + (angleMod (xyzRot.z - target.z)))
+  let t10026 := (target.x + (angleMod ((((884279719003555 : α) / (281474976710656 : α)) + t10013) - target.x)))
+  let t10031 := (t10017 - target.z)
+  let t10032 := (t10015 - target.y)
+  let t10033 := (t10013 - target.x)
+  let t10036 := (t10026 - target.x)
+  let t10041 := (((t10033 * t10033) + (t10032 * t10032)) + (t10031 * t10031))
+  let t10092 := (target.y + (angleMod ((((884279719003555 : α) / (281474976710656 : α)) + t10015) - target.y)))
+  let t10094 := (target.z + (angleMod ((((884279719003555 : α) / (281474976710656 : α)) - t10017) - target.z)))
+  let t10095 := (t10094 - target.z)
+  let t10096 := (t10092 - target.y)
+  let t10100 := (((t10036 * t10036) + (t10096 * t10096)) + (t10095 * t10095))
+  if t10100 < t10041 then
+    ⟨t10026, t10092, t10094⟩
   else
-    ⟨t10015, t10017, t10019⟩
+    ⟨t10013, t10015, t10017⟩
 
 /-- extracted from the C++ template at T = Sym; 2 path(s) -/
 def Euler.makeNear_ZXYr {α : Type} [Add α] [Sub α] [Mul α] [Div α] [LT α] [DecidableLT α] [OfNat α 281474976710656] [OfNat α 884279719003555] (angleMod : α → α) (a : V3 α) (t : V3 α) : ((V3 α) × Int) :=
-  let t10056 := (t.x + (angleMod (a.x - t.x)))
-  let t10058 := (t.y + (angleMod (a.y - t.y)))
-  let t10060 := (t.z + (angleMod (a.z - t.z)))
-  let t10068 := (t.x + (angleMod ((((884279719003555 : α) / (281474976710656 : α)) + t10056) - t.x)))
-  let t10070 := (t.y + (angleMod ((((884279719003555 : α) / (281474976710656 : α)) - t10058) - t.y)))
-  let t10072 := (t.z + (angleMod ((((884279719003555 : α) / (281474976710656 : α)) + t10060) - t.z)))
-  let t10073 := (t10060 - t.z)
-  let t10074 := (t10058 - t.y)
-  let t10075 := (t10056 - t.x)
-  let t10076 := (t10072 - t.z)
-  let t10077 := (t10070 - t.y)
-  let t10078 := (t10068 - t.x)
-  let t10104 := (((t10075 * t10075) + (t10073 * t10073)) + (t10074 * t10074))
-  let t10106 := (((t10078 * t10078) + (t10076 * t10076)) + (t10077 * t10077))
-  if t10106 < t10104 then
-    (⟨t10068, t10070, t10072⟩, (0 : Int))
+  let t10054 := (t.x + (angleMod (a.x - t.x)))
+  let t10056 := (t.y + (angleMod (a.y - t.y)))
+  let t10058 := (t.z + (angleMod (a.z - t.z)))
+  let t10066 := (t.x + (angleMod ((((884279719003555 : α) / (281474976710656 : α)) + t10054) - t.x)))
+  let t10068 := (t.y + (angleMod ((((884279719003555 : α) / (281474976710656 : α)) - t10056) - t.y)))
+  let t10070 := (t.z + (angleMod ((((884279719003555 : α) / (281474976710656 : α)) + t10058) - t.z)))
+  let t10071 := (t10058 - t.z)
+  let t10072 := (t10056 - t.y)
+  let t10073 := (t10054 - t.x)
+  let t10074 := (t10070 - t.z)
+  let t10075 := (t10068 - t.y)
+  let t10076 := (t10066 - t.x)
+  let t10102 := (((t10073 * t10073) + (t10071 * t10071)) + (t10072 * t10072))
+  let t10104 := (((t10076 * t10076) + (t10074 * t10074)) + (t10075 * t10075))
+  if t10104 < t10102 then
+    (⟨t10066, t10068, t10070⟩, (0 : Int))
   else
-    (⟨t10056, t10058, t10060⟩, (0 : Int))
+    (⟨t10054, t10056, t10058⟩, (0 : Int))
 
 /-- extracted from the C++ template at T = Sym; 2 path(s) -/
 def Euler.nearestRotation_ZYXr {α : Type} [Add α] [Sub α] [Mul α] [Div α] [LT α] [DecidableLT α] [OfNat α 281474976710656] [OfNat α 884279719003555] (angleMod : α → α) (xyzRot : V3 α) (target : V3 α) : (V3 α) :=
-  let t10015 := (target.x + (angleMod (xyzRot.x - target.x)))
-  let t10017 := (target.y + (angleMod (xyzRot.y - target.y)))
-  let t10019 := (target.z + (angleMod (xyzRot.z - target.z)))
-  let t10028 := (target.x + (angleMod ((((884279719003555 : α) / (281474976710656 : α)) + t10015) - target.x)))
-  let t10030 := (target.y + (angleMod ((((884279719003555 : α) / (281474976710656 : α)) - t10017) - target.y)))
-  let t10032 := (target.z + (angleMod ((((884279719003555 : α) / (281474976710656 : α)) + t10019) - target.z)))
-  let t10033 := (t10019 - target.z)
-  let t10034 := (t10017 - target.y)
-  let t10035 := (t10015 - target.x)
-  let t10036 := (t10032 - target.z)
-  let t10037 := (t10030 - target.y)
-  let t10038 := (t10028 - target.x)
-  let t10043 := (((t10035 * t10035) + (t10034 * t10034)) + (t10033 * t10033))
-  let t10048 := (((t10038 * t10038) + (t10037 * t10037)) + (t10036 * t10036))
-  if t10048 < t10043 then
-    ⟨t10028, t10030, t10032⟩
+  let t10013 := (target.x + (angleMod (xyzRot.x - target.x)))
+  let t10015 := (target.y + (angleMod (xyzRot.y - target.y)))
+  let t10017 := (target.z + (angleMod (xyzRot.z - target.z)))
+  let t10026 := (target.x + (angleMod ((((884279719003555 : α) / (281474976710656 : α)) + t10013) - target.x)))
+  let t10028 := (target.y + (angleMod ((((884279719003555 : α) / (281474976710656 : α)) - t10015) - target.y)))
+  let t10030 := (target.z + (angleMod ((((884279719003555 : α) / (281474976710656 : α)) + t10017) - target.z)))
+  let t10031 := (t10017 - target.z)
+  let t10032 := (t10015 - target.y)
+  let t10033 := (t10013 - target.x)
+  let t10034 := (t10030 - target.z)
+  let t10035 := (t10028 - target.y)
+  let t10036 := (t10026 - target.x)
+  let t10041 := (((t10033 * t10033) + (t10032 * t10032)) + (t10031 * t10031))
+  let t10046 := (((t10036 * t10036) + (t10035 * t10035)) + (t10034 * t10034))
+  if t10046 < t10041 then
+    ⟨t10026, t10028, t10030⟩
   else
-    ⟨t10015, t10017, t10019⟩
+    ⟨t10013, t10015, t10017⟩
 
 /-- extracted from the C++ template at T = Sym; 2 path(s) -/
 def Euler.makeNear_ZYXr {α : Type} [Add α] [Sub α] [Mul α] [Div α] [LT α] [DecidableLT α] [OfNat α 281474976710656] [OfNat α 884279719003555] (angleMod : α → α) (a : V3 α) (t : V3 α) : ((V3 α) × Int) :=
-  let t10056 := (t.x + (angleMod (a.x - t.x)))
-  let t10058 := (t.y + (angleMod (a.y - t.y)))
-  let t10060 := (t.z + (angleMod (a.z - t.z)))
-  let t10068 := (t.x + (angleMod ((((884279719003555 : α) / (281474976710656 : α)) + t10056) - t.x)))
-  let t10070 := (t.y + (angleMod ((((884279719003555 : α) / (281474976710656 : α)) - t10058) - t.y)))
-  let t10072 := (t.z + (angleMod ((((884279719003555 : α) / (281474976710656 : α)) + t10060) - t.z)))
-  let t10073 := (t10060 - t.z)
-  let t10074 := (t10058 - t.y)
-  let t10075 := (t10056 - t.x)
-  let t10076 := (t10072 - t.z)
-  let t10077 := (t10070 - t.y)
-  let t10078 := (t10068 - t.x)
-  let t10083 := (((t10075 * t10075) + (t10074 * t10074)) + (t10073 * t10073))
-  let t10088 := (((t10078 * t10078) + (t10077 * t10077)) + (t10076 * t10076))
-  if t10088 < t10083 then
-    (⟨t10068, t10070, t10072⟩, (256 : Int))
+  let t10054 := (t.x + (angleMod (a.x - t.x)))
+  let t10056 := (t.y + (angleMod (a.y - t.y)))
+  let t10058 := (t.z + (angleMod (a.z - t.z)))
+  let t10066 := (t.x + (angleMod ((((884279719003555 : α) / (281474976710656 : α)) + t10054) - t.x)))
+  let t10068 := (t.y + (angleMod ((((884279719003555 : α) / (281474976710656 : α)) - t10056) - t.y)))
+  let t10070 := (t.z + (angleMod ((((884279719003555 : α) / (281474976710656 : α)) + t10058) - t.z)))
+  let t10071 := (t10058 - t.z)
+  let t10072 := (t10056 - t.y)
+  let t10073 := (t10054 - t.x)
+  let t10074 := (t10070 - t.z)
+  let t10075 := (t10068 - t.y)
+  let t10076 := (t10066 - t.x)
+  let t10081 := (((t10073 * t10073) + (t10072 * t10072)) + (t10071 * t10071))
+  let t10086 := (((t10076 * t10076) + (t10075 * t10075)) + (t10074 * t10074))
+  if t10086 < t10081 then
+    (⟨t10066, t10068, t10070⟩, (256 : Int))
   else
-    (⟨t10056, t10058, t10060⟩, (256 : Int))
+    (⟨t10054, t10056, t10058⟩, (256 : Int))
 
 /-- extracted from the C++ template at T = Sym; 2 path(s) -/
 def Euler.nearestRotation_XZXr {α : Type} [Add α] [Sub α] [Mul α] [Div α] [LT α] [DecidableLT α] [OfNat α 281474976710656] [OfNat α 884279719003555] (angleMod : α → α) (xyzRot : V3 α) (target : V3 α) : (V3 α) :=
-  let t10015 := (target.x + (angleMod (xyzRot.x - target.x)))
-  let t10017 := (target.y + (angleMod (xyzRot.y - target.y)))
-  let t10019 := (target.z + (angleMod (xyzRot.z - target.z)))
-  let t10032 := (target.z + (angleMod ((((884279719003555 : α) / (281474976710656 : α)) + t10019) - target.z)))
-  let t10033 := (t10019 - target.z)
-  let t10034 := (t10017 - target.y)
-  let t10035 := (t10015 - target.x)
-  let t10036 := (t10032 - target.z)
-  let t10043 := (((t10035 * t10035) + (t10034 * t10034)) + (t10033 * t10033))
-  let t10094 := (target.y + (angleMod ((((884279719003555 : α) / (281474976710656 : α)) + t10017) - target.y)))
-  let t10098 := (t10094 - target.y)
-  let t10114 := (target.x + (angleMod ((((884279719003555 : α) / (281474976710656 : α)) - t10015) - target.x)))
-  let t10115 := (t10114 - target.x)
-  let t10118 := (((t10115 * t10115) + (t10098 * t10098)) + (t10036 * t10036))
-  if t10118 < t10043 then
-    ⟨t10114, t10094, t10032⟩
+  let t10013 := (target.x + (angleMod (xyzRot.x - target.x)))
+  let t10015 := (target.y + (angleMod (xyzRot.y - target.y)))
+  let t10017 := (target.z + (angleMod (xyzRot.z - target.z)))
+  let t10030 := (target.z + (angleMod ((((884279719003555 : α) / (281474976710656 : α)) + t10017) - target.z)))
+  let t10031 := (t10017 - target.z)
+  let t10032 := (t10015 - target.y)
+  let t10033 := (t10013 - target.x)
+  let t10034 := (t10030 - target.z)
+  let t10041 := (((t10033 * t10033) + (t10032 * t10032)) + (t10031 * t10031))
+  let t10092 := (target.y + (angleMod ((((884279719003555 : α) / (281474976710656 : α)) + t10015) - target.y)))
+  let t10096 := (t10092 - target.y)
+  let t10112 := (target.x + (angleMod ((((884279719003555 : α) / (281474976710656 : α)) - t10013) - target.x)))
+  let t10113 := (t10112 - target.x)
+  let t10116 := (((t10113 * t10113) + (t10096 * t10096)) + (t10034 * t10034))
+  if t10116 < t10041 then
+    ⟨t10112, t10092, t10030⟩
   else
-    ⟨t10015, t10017, t10019⟩
+    ⟨t10013, t10015, t10017⟩
 
 /-- extracted from the C++ template at T = Sym; 2 path(s) -/
 def Euler.makeNear_XZXr {α : Type} [Add α] [Sub α] [Mul α] [Div α] [LT α] [DecidableLT α] [OfNat α 281474976710656] [OfNat α 884279719003555] (angleMod : α → α) (a : V3 α) (t : V3 α) : ((V3 α) × Int) :=
-  let t10056 := (t.x + (angleMod (a.x - t.x)))
-  let t10058 := (t.y + (angleMod (a.y - t.y)))
-  let t10060 := (t.z + (angleMod (a.z - t.z)))
-  let t10068 := (t.x + (angleMod ((((884279719003555 : α) / (281474976710656 : α)) + t10056) - t.x)))
-  let t10070 := (t.y + (angleMod ((((884279719003555 : α) / (281474976710656 : α)) - t10058) - t.y)))
-  let t10072 := (t.z + (angleMod ((((884279719003555 : α) / (281474976710656 : α)) + t10060) - t.z)))
-  let t10073 := (t10060 - t.z)
-  let t10074 := (t10058 - t.y)
-  let t10075 := (t10056 - t.x)
-  let t10076 := (t10072 - t.z)
-  let t10077 := (t10070 - t.y)
-  let t10078 := (t10068 - t.x)
-  let t10124 := (((t10074 * t10074) + (t10073 * t10073)) + (t10075 * t10075))
-  let t10126 := (((t10077 * t10077) + (t10076 * t10076)) + (t10078 * t10078))
-  if t10126 < t10124 then
-    (⟨t10068, t10070, t10072⟩, (8464 : Int))
+  let t10054 := (t.x + (angleMod (a.x - t.x)))
+  let t10056 := (t.y + (angleMod (a.y - t.y)))
+  let t10058 := (t.z + (angleMod (a.z - t.z)))
+  let t10066 := (t.x + (angleMod ((((884279719003555 : α) / (281474976710656 : α)) + t10054) - t.x)))
+  let t10068 := (t.y + (angleMod ((((884279719003555 : α) / (281474976710656 : α)) - t10056) - t.y)))
+  let t10070 := (t.z + (angleMod ((((884279719003555 : α) / (281474976710656 : α)) + t10058) - t.z)))
+  let t10071 := (t10058 - t.z)
+  let t10072 := (t10056 - t.y)
+  let t10073 := (t10054 - t.x)
+  let t10074 := (t10070 - t.z)
+  let t10075 := (t10068 - t.y)
+  let t10076 := (t10066 - t.x)
+  let t10122 := (((t10072 * t10072) + (t10071 * t10071)) + (t10073 * t10073))
+  let t10124 := (((t10075 * t10075) + (t10074 * t10074)) + (t10076 * t10076))
+  if t10124 < t10122 then
+    (⟨t10066, t10068, t10070⟩, (8464 : Int))
   else
-    (⟨t10056, t10058, t10060⟩, (8464 : Int))
+    (⟨t10054, t10056, t10058⟩, (8464 : Int))
 
 /-- extracted from the C++ template at T = Sym; 2 path(s) -/
 def Euler.nearestRotation_XYXr {α : Type} [Add α] [Sub α] [Mul α] [Div α] [LT α] [DecidableLT α] [OfNat α 281474976710656] [OfNat α 884279719003555] (angleMod : α → α) (xyzRot : V3 α) (target : V3 α) : (V3 α) :=
-  let t10015 := (target.x + (angleMod (xyzRot.x - target.x)))
-  let t10017 := (target.y + (angleMod (xyzRot.y - target.y)))
-  let t10019 := (target.z + (angleMod (xyzRot.z - target.z)))
-  let t10028 := (target.x + (angleMod ((((884279719003555 : α) / (281474976710656 : α)) + t10015) - target.x)))
-  let t10030 := (target.y + (angleMod ((((884279719003555 : α) / (281474976710656 : α)) - t10017) - target.y)))
-  let t10032 := (target.z + (angleMod ((((884279719003555 : α) / (281474976710656 : α)) + t10019) - target.z)))
-  let t10033 := (t10019 - target.z)
-  let t10034 := (t10017 - target.y)
-  let t10035 := (t10015 - target.x)
-  let t10036 := (t10032 - target.z)
-  let t10037 := (t10030 - target.y)
-  let t10038 := (t10028 - target.x)
-  let t10043 := (((t10035 * t10035) + (t10034 * t10034)) + (t10033 * t10033))
-  let t10048 := (((t10038 * t10038) + (t10037 * t10037)) + (t10036 * t10036))
-  if t10048 < t10043 then
-    ⟨t10028, t10030, t10032⟩
+  let t10013 := (target.x + (angleMod (xyzRot.x - target.x)))
+  let t10015 := (target.y + (angleMod (xyzRot.y - target.y)))
+  let t10017 := (target.z + (angleMod (xyzRot.z - target.z)))
+  let t10026 := (target.x + (angleMod ((((884279719003555 : α) / (281474976710656 : α)) + t10013) - target.x)))
+  let t10028 := (target.y + (angleMod ((((884279719003555 : α) / (281474976710656 : α)) - t10015) - target.y)))
+  let t10030 := (target.z + (angleMod ((((884279719003555 : α) / (281474976710656 : α)) + t10017) - target.z)))
+  let t10031 := (t10017 - target.z)
+  let t10032 := (t10015 - target.y)
+  let t10033 := (t10013 - target.x)
+  let t10034 := (t10030 - target.z)
+  let t10035 := (t10028 - target.y)
+  let t10036 := (t10026 - target.x)
+  let t10041 := (((t10033 * t10033) + (t10032 * t10032)) + (t10031 * t10031))
+  let t10046 := (((t10036 * t10036) + (t10035 * t10035)) + (t10034 * t10034))
+  if t10046 < t10041 then
+    ⟨t10026, t10028, t10030⟩
   else
-    ⟨t10015, t10017, t10019⟩
+    ⟨t10013, t10015, t10017⟩
 
 /-- extracted from the C++ template at T = Sym; 2 path(s) -/
 def Euler.makeNear_XYXr {α : Type} [Add α] [Sub α] [Mul α] [Div α] [LT α] [DecidableLT α] [OfNat α 281474976710656] [OfNat α 884279719003555] (angleMod : α → α) (a : V3 α) (t : V3 α) : ((V3 α) × Int) :=
-  let t10056 := (t.x + (angleMod (a.x - t.x)))
-  let t10058 := (t.y + (angleMod (a.y - t.y)))
-  let t10060 := (t.z + (angleMod (a.z - t.z)))
-  let t10068 := (t.x + (angleMod ((((884279719003555 : α) / (281474976710656 : α)) + t10056) - t.x)))
-  let t10070 := (t.y + (angleMod ((((884279719003555 : α) / (281474976710656 : α)) - t10058) - t.y)))
-  let t10072 := (t.z + (angleMod ((((884279719003555 : α) / (281474976710656 : α)) + t10060) - t.z)))
-  let t10073 := (t10060 - t.z)
-  let t10074 := (t10058 - t.y)
-  let t10075 := (t10056 - t.x)
-  let t10076 := (t10072 - t.z)
-  let t10077 := (t10070 - t.y)
-  let t10078 := (t10068 - t.x)
-  let t10128 := (((t10073 * t10073) + (t10074 * t10074)) + (t10075 * t10075))
-  let t10130 := (((t10076 * t10076) + (t10077 * t10077)) + (t10078 * t10078))
-  if t10130 < t10128 then
-    (⟨t10068, t10070, t10072⟩, (8208 : Int))
+  let t10054 := (t.x + (angleMod (a.x - t.x)))
+  let t10056 := (t.y + (angleMod (a.y - t.y)))
+  let t10058 := (t.z + (angleMod (a.z - t.z)))
+  let t10066 := (t.x + (angleMod ((((884279719003555 : α) / (281474976710656 : α)) + t10054) - t.x)))
+  let t10068 := (t.y + (angleMod ((((884279719003555 : α) / (281474976710656 : α)) - t10056) - t.y)))
+  let t10070 := (t.z + (angleMod ((((884279719003555 : α) / (281474976710656 : α)) + t10058) - t.z)))
+  let t10071 := (t10058 - t.z)
+  let t10072 := (t10056 - t.y)
+  let t10073 := (t10054 - t.x)
+  let t10074 := (t10070 - t.z)
+  let t10075 := (t10068 - t.y)
+  let t10076 := (t10066 - t.x)
+  let t10126 := (((t10071 * t10071) + (t10072 * t10072)) + (t10073 * t10073))
+  let t10128 := (((t10074 * t10074) + (t10075 * t10075)) + (t10076 * t10076))
+  if t10128 < t10126 then
+    (⟨t10066, t10068, t10070⟩, (8208 : Int))
   else
-    (⟨t10056, t10058, t10060⟩, (8208 : Int))
+    (⟨t10054, t10056, t10058⟩, (8208 : Int))
 
 /-- extracted from the C++ template at T = Sym; 2 path(s) -/
 def Euler.nearestRotation_YXYr {α : Type} [Add α] [Sub α] [Mul α] [Div α] [LT α] [DecidableLT α] [OfNat α 281474976710656] [OfNat α 884279719003555] (angleMod : α → α) (xyzRot : V3 α) (target : V3 α) : (V3 α) :=
-  let t10015 := (target.x + (angleMod (xyzRot.x - target.x)))
-  let t10017 := (target.y + (angleMod (xyzRot.y - target.y)))
-  let t10019 := (target.z + (angleMod (xyzRot.z - target.z)))
-  let t10028 := (target.x + (angleMod ((((884279719003555 : α) / (281474976710656 : α)) + t10015) - target.x)))
-  let t10033 := (t10019 - target.z)
-  let t10034 := (t10017 - target.y)
-  let t10035 := (t10015 - target.x)
-  let t10038 := (t10028 - target.x)
-  let t10043 := (((t10035 * t10035) + (t10034 * t10034)) + (t10033 * t10033))
-  let t10094 := (target.y + (angleMod ((((884279719003555 : α) / (281474976710656 : α)) + t10017) - target.y)))
-  let t10096 := (target.z + (angleMod ((((884279719003555 : α) / (281474976710656 : α)) - t10019) - target.z)))
-  let t10097 := (t10096 - target.z)
-  let t10098 := (t10094 - target.y)
-  let t10102 := (((t10038 * t10038) + (t10098 * t10098)) + (t10097 * t10097))
-  if t10102 < t10043 then
-    ⟨t10028, t10094, t10096⟩
+  let t10013 := (target.x + (angleMod (xyzRot.x - target.x)))
+  let t10015 := (target.y + (angleMod (xyzRot.y - target.y)))
+  let t10017 := (target.z + (angleMod (xyzRot.z - target.z)))
+  let t10026 := (target.x + (angleMod ((((884279719003555 : α) / (281474976710656 : α)) + t10013) - target.x)))
+  let t10031 := (t10017 - target.z)
+  let t10032 := (t10015 - target.y)
+  let t10033 := (t10013 - target.x)
+  let t10036 := (t10026 - target.x)
+  let t10041 := (((t10033 * t10033) + (t10032 * t10032)) + (t10031 * t10031))
+  let t10092 := (target.y + (angleMod ((((884279719003555 : α) / (281474976710656 : α)) + t10015) - target.y)))
+  let t10094 := (target.z + (angleMod ((((884279719003555 : α) / (281474976710656 : α)) - t10017) - target.z)))
+  let t10095 := (t10094 - target.z)
+  let t10096 := (t10092 - target.y)
+  let t10100 := (((t10036 * t10036) + (t10096 * t10096)) + (t10095 * t10095))
+  if t10100 < t10041 then
+    ⟨t10026, t10092, t10094⟩
   else
-    ⟨t10015, t10017, t10019⟩
+    ⟨t10013, t10015, t10017⟩
 
 /-- extracted from the C++ template at T = Sym; 2 path(s) -/
 def Euler.makeNear_YXYr {α : Type} [Add α] [Sub α] [Mul α] [Div α] [LT α] [DecidableLT α] [OfNat α 281474976710656] [OfNat α 884279719003555] (angleMod : α → α) (a : V3 α) (t : V3 α) : ((V3 α) × Int) :=
-  let t10056 := (t.x + (angleMod (a.x - t.x)))
-  let t10058 := (t.y + (angleMod (a.y - t.y)))
-  let t10060 := (t.z + (angleMod (a.z - t.z)))
-  let t10068 := (t.x + (angleMod ((((884279719003555 : α) / (281474976710656 : α)) + t10056) - t.x)))
-  let t10070 := (t.y + (angleMod ((((884279719003555 : α) / (281474976710656 : α)) - t10058) - t.y)))
-  let t10072 := (t.z + (angleMod ((((884279719003555 : α) / (281474976710656 : α)) + t10060) - t.z)))
-  let t10073 := (t10060 - t.z)
-  let t10074 := (t10058 - t.y)
-  let t10075 := (t10056 - t.x)
-  let t10076 := (t10072 - t.z)
-  let t10077 := (t10070 - t.y)
-  let t10078 := (t10068 - t.x)
-  let t10108 := (((t10073 * t10073) + (t10075 * t10075)) + (t10074 * t10074))
-  let t10110 := (((t10076 * t10076) + (t10078 * t10078)) + (t10077 * t10077))
-  if t10110 < t10108 then
-    (⟨t10068, t10070, t10072⟩, (4368 : Int))
+  let t10054 := (t.x + (angleMod (a.x - t.x)))
+  let t10056 := (t.y + (angleMod (a.y - t.y)))
+  let t10058 := (t.z + (angleMod (a.z - t.z)))
+  let t10066 := (t.x + (angleMod ((((884279719003555 : α) / (281474976710656 : α)) + t10054) - t.x)))
+  let t10068 := (t.y + (angleMod ((((884279719003555 : α) / (281474976710656 : α)) - t10056) - t.y)))
+  let t10070 := (t.z + (angleMod ((((884279719003555 : α) / (281474976710656 : α)) + t10058) - t.z)))
+  let t10071 := (t10058 - t.z)
+  let t10072 := (t10056 - t.y)
+  let t10073 := (t10054 - t.x)
+  let t10074 := (t10070 - t.z)
+  let t10075 := (t10068 - t.y)
+  let t10076 := (t10066 - t.x)
+  let t10106 := (((t10071 * t10071) + (t10073 * t10073)) + (t10072 * t10072))
+  let t10108 := (((t10074 * t10074) + (t10076 * t10076)) + (t10075 * t10075))
+  if t10108 < t10106 then
+    (⟨t10066, t10068, t10070⟩, (4368 : Int))
   else
-    (⟨t10056, t10058, t10060⟩, (4368 : Int))
+    (⟨t10054, t10056, t10058⟩, (4368 : Int))
 
 /-- extracted from the C++ template at T = Sym; 2 path(s) -/
 def Euler.nearestRotation_YZYr {α : Type} [Add α] [Sub α] [Mul α] [Div α] [LT α] [DecidableLT α] [OfNat α 281474976710656] [OfNat α 884279719003555] (angleMod : α → α) (xyzRot : V3 α) (target : V3 α) : (V3 α) :=
-  let t10015 := (target.x + (angleMod (xyzRot.x - target.x)))
-  let t10017 := (target.y + (angleMod (xyzRot.y - target.y)))
-  let t10019 := (target.z + (angleMod (xyzRot.z - target.z)))
-  let t10032 := (target.z + (angleMod ((((884279719003555 : α) / (281474976710656 : α)) + t10019) - target.z)))
-  let t10033 := (t10019 - target.z)
-  let t10034 := (t10017 - target.y)
-  let t10035 := (t10015 - target.x)
-  let t10036 := (t10032 - target.z)
-  let t10043 := (((t10035 * t10035) + (t10034 * t10034)) + (t10033 * t10033))
-  let t10094 := (target.y + (angleMod ((((884279719003555 : α) / (281474976710656 : α)) + t10017) - target.y)))
-  let t10098 := (t10094 - target.y)
-  let t10114 := (target.x + (angleMod ((((884279719003555 : α) / (281474976710656 : α)) - t10015) - target.x)))
-  let t10115 := (t10114 - target.x)
-  let t10118 := (((t10115 * t10115) + (t10098 * t10098)) + (t10036 * t10036))
-  if t10118 < t10043 then
-    ⟨t10114, t10094, t10032⟩
+  let t10013 := (target.x + (angleMod (xyzRot.x - target.x)))
+  let t10015 := (target.y + (angleMod (xyzRot.y - target.y)))
+  let t10017 := (target.z + (angleMod (xyzRot.z - target.z)))
+  let t10030 := (target.z + (angleMod ((((884279719003555 : α) / (281474976710656 : α)) + t10017) - target.z)))
+  let t10031 := (t10017 - target.z)
+  let t10032 := (t10015 - target.y)
+  let t10033 := (t10013 - target.x)
+  let t10034 := (t10030 - target.z)
+  let t10041 := (((t10033 * t10033) + (t10032 * t10032)) + (t10031 * t10031))
+  let t10092 := (target.y + (angleMod ((((884279719003555 : α) / (281474976710656 : α)) + t10015) - target.y)))
+  let t10096 := (t10092 - target.y)
+  let t10112 := (target.x + (angleMod ((((884279719003555 : α) / (281474976710656 : α)) - t10013) - target.x)))
+  let t10113 := (t10112 - target.x)
+  let t10116 := (((t10113 * t10113) + (t10096 * t10096)) + (t10034 * t10034))
+  if t10116 < t10041 then
+    ⟨t10112, t10092, t10030⟩
   else
-    ⟨t10015, t10017, t10019⟩
+    ⟨t10013, t10015, t10017⟩
 
 /-- extracted from the C++ template at T = Sym; 2 path(s) -/
 def Euler.makeNear_YZYr {α : Type} [Add α] [Sub α] [Mul α] [Div α] [LT α] [DecidableLT α] [OfNat α 281474976710656] [OfNat α 884279719003555] (angleMod : α → α) (a : V3 α) (t : V3 α) : ((V3 α) × Int) :=
-  let t10056 := (t.x + (angleMod (a.x - t.x)))
-  let t10058 := (t.y + (angleMod (a.y - t.y)))
-  let t10060 := (t.z + (angleMod (a.z - t.z)))
-  let t10068 := (t.x + (angleMod ((((884279719003555 : α) / (281474976710656 : α)) + t10056) - t.x)))
-  let t10070 := (t.y + (angleMod ((((884279719003555 : α) / (281474976710656 : α)) - t10058) - t.y)))
-  let t10072 := (t.z + (angleMod ((((884279719003555 : α) / (281474976710656 : α)) + t10060) - t.z)))
-  let t10073 := (t10060 - t.z)
-  let t10074 := (t10058 - t.y)
-  let t10075 := (t10056 - t.x)
-  let t10076 := (t10072 - t.z)
-  let t10077 := (t10070 - t.y)
-  let t10078 := (t10068 - t.x)
-  let t10120 := (((t10074 * t10074) + (t10075 * t10075)) + (t10073 * t10073))
-  let t10122 := (((t10077 * t10077) + (t10078 * t10078)) + (t10076 * t10076))
-  if t10122 < t10120 then
-    (⟨t10068, t10070, t10072⟩, (4112 : Int))
+  let t10054 := (t.x + (angleMod (a.x - t.x)))
+  let t10056 := (t.y + (angleMod (a.y - t.y)))
+  let t10058 := (t.z + (angleMod (a.z - t.z)))
+  let t10066 := (t.x + (angleMod ((((884279719003555 : α) / (281474976710656 : α)) + t10054) - t.x)))
+  let t10068 := (t.y + (angleMod ((((884279719003555 : α) / (281474976710656 : α)) - t10056) - t.y)))
+  let t10070 := (t.z + (angleMod ((((884279719003555 : α) / (281474976710656 : α)) + t10058) - t.z)))
+  let t10071 := (t10058 - t.z)
+  let t10072 := (t10056 - t.y)
+  let t10073 := (t10054 - t.x)
+  let t10074 := (t10070 - t.z)
+  let t10075 := (t10068 - t.y)
+  let t10076 := (t10066 - t.x)
+  let t10118 := (((t10072 * t10072) + (t10073 * t10073)) + (t10071 * t10071))
+  let t10120 := (((t10075 * t10075) + (t10076 * t10076)) + (t10074 * t10074))
+  if t10120 < t10118 then
+    (⟨t10066, t10068, t10070⟩, (4112 : Int))
   else
-    (⟨t10056, t10058, t10060⟩, (4112 : Int))
+    (⟨t10054, t10056, t10058⟩, (4112 : Int))
 
 /-- extracted from the C++ template at T = Sym; 2 path(s) -/
 def Euler.nearestRotation_ZYZr {α : Type} [Add α] [Sub α] [Mul α] [Div α] [LT α] [DecidableLT α] [OfNat α 281474976710656] [OfNat α 884279719003555] (angleMod : α → α) (xyzRot : V3 α) (target : V3 α) : (V3 α) :=
-  let t10015 := (target.x + (angleMod (xyzRot.x - target.x)))
-  let t10017 := (target.y + (angleMod (xyzRot.y - target.y)))
-  let t10019 := (target.z + (angleMod (xyzRot.z - target.z)))
-  let t10028 := (target.x + (angleMod ((((884279719003555 : α) / (281474976710656 : α)) + t10015) - target.x)))
-  let t10030 := (target.y + (angleMod ((((884279719003555 : α) / (281474976710656 : α)) - t10017) - target.y)))
-  let t10032 := (target.z + (angleMod ((((884279719003555 : α) / (281474976710656 : α)) + t10019) - target.z)))
-  let t10033 := (t10019 - target.z)
-  let t10034 := (t10017 - target.y)
-  let t10035 := (t10015 - target.x)
-  let t10036 := (t10032 - target.z)
-  let t10037 := (t10030 - target.y)
-  let t10038 := (t10028 - target.x)
-  let t10043 := (((t10035 * t10035) + (t10034 * t10034)) + (t10033 * t10033))
-  let t10048 := (((t10038 * t10038) + (t10037 * t10037)) + (t10036 * t10036))
-  if t10048 < t10043 then
-    ⟨t10028, t10030, t10032⟩
+  let t10013 := (target.x + (angleMod (xyzRot.x - target.x)))
+  let t10015 := (target.y + (angleMod (xyzRot.y - target.y)))
+  let t10017 := (target.z + (angleMod (xyzRot.z - target.z)))
+  let t10026 := (target.x + (angleMod ((((884279719003555 : α) / (281474976710656 : α)) + t10013) - target.x)))
+  let t10028 := (target.y + (angleMod ((((884279719003555 : α) / (281474976710656 : α)) - t10015) - target.y)))
+  let t10030 := (target.z + (angleMod ((((884279719003555 : α) / (281474976710656 : α)) + t10017) - target.z)))
+  let t10031 := (t10017 - target.z)
+  let t10032 := (t10015 - target.y)
+  let t10033 := (t10013 - target.x)
+  let t10034 := (t10030 - target.z)
+  let t10035 := (t10028 - target.y)
+  let t10036 := (t10026 - target.x)
+  let t10041 := (((t10033 * t10033) + (t10032 * t10032)) + (t10031 * t10031))
+  let t10046 := (((t10036 * t10036) + (t10035 * t10035)) + (t10034 * t10034))
+  if t10046 < t10041 then
+    ⟨t10026, t10028, t10030⟩
   else
-    ⟨t10015, t10017, t10019⟩
+    ⟨t10013, t10015, t10017⟩
 
 /-- extracted from the C++ template at T = Sym; 2 path(s) -/
 def Euler.makeNear_ZYZr {α : Type} [Add α] [Sub α] [Mul α] [Div α] [LT α] [DecidableLT α] [OfNat α 281474976710656] [OfNat α 884279719003555] (angleMod : α → α) (a : V3 α) (t : V3 α) : ((V3 α) × Int) :=
-  let t10056 := (t.x + (angleMod (a.x - t.x)))
-  let t10058 := (t.y + (angleMod (a.y - t.y)))
-  let t10060 := (t.z + (angleMod (a.z - t.z)))
-  let t10068 := (t.x + (angleMod ((((884279719003555 : α) / (281474976710656 : α)) + t10056) - t.x)))
-  let t10070 := (t.y + (angleMod ((((884279719003555 : α) / (281474976710656 : α)) - t10058) - t.y)))
-  let t10072 := (t.z + (angleMod ((((884279719003555 : α) / (281474976710656 : α)) + t10060) - t.z)))
-  let t10073 := (t10060 - t.z)
-  let t10074 := (t10058 - t.y)
-  let t10075 := (t10056 - t.x)
-  let t10076 := (t10072 - t.z)
-  let t10077 := (t10070 - t.y)
-  let t10078 := (t10068 - t.x)
-  let t10083 := (((t10075 * t10075) + (t10074 * t10074)) + (t10073 * t10073))
-  let t10088 := (((t10078 * t10078) + (t10077 * t10077)) + (t10076 * t10076))
-  if t10088 < t10083 then
-    (⟨t10068, t10070, t10072⟩, (272 : Int))
+  let t10054 := (t.x + (angleMod (a.x - t.x)))
+  let t10056 := (t.y + (angleMod (a.y - t.y)))
+  let t10058 := (t.z + (angleMod (a.z - t.z)))
+  let t10066 := (t.x + (angleMod ((((884279719003555 : α) / (281474976710656 : α)) + t10054) - t.x)))
+  let t10068 := (t.y + (angleMod ((((884279719003555 : α) / (281474976710656 : α)) - t10056) - t.y)))
+  let t10070 := (t.z + (angleMod ((((884279719003555 : α) / (281474976710656 : α)) + t10058) - t.z)))
+  let t10071 := (t10058 - t.z)
+  let t10072 := (t10056 - t.y)
+  let t10073 := (t10054 - t.x)
+  let t10074 := (t10070 - t.z)
+  let t10075 := (t10068 - t.y)
+  let t10076 := (t10066 - t.x)
+  let t10081 := (((t10073 * t10073) + (t10072 * t10072)) + (t10071 * t10071))
+  let t10086 := (((t10076 * t10076) + (t10075 * t10075)) + (t10074 * t10074))
+  if t10086 < t10081 then
+    (⟨t10066, t10068, t10070⟩, (272 : Int))
   else
-    (⟨t10056, t10058, t10060⟩, (272 : Int))
+    (⟨t10054, t10056, t10058⟩, (272 : Int))
 
 /-- extracted from the C++ template at T = Sym; 2 path(s) -/
 def Euler.nearestRotation_ZXZr {α : Type} [Add α] [Sub α] [Mul α] [Div α] [LT α] [DecidableLT α] [OfNat α 281474976710656] [OfNat α 884279719003555] (angleMod : α → α) (xyzRot : V3 α) (target : V3 α) : (V3 α) :=
-  let t10015 := (target.x + (angleMod (xyzRot.x - target.x)))
-  let t10017 := (target.y + (angleMod (xyzRot.y - target.y)))
-  let t10019 := (target.z + (angleMod (xyzRot.z - target.z)))
-  let t10028 := (target.x + (angleMod ((((884279719003555 : α) / (281474976710656 : α)) + t10015) - target.x)))
-  let t10033 := (t10019 - target.z)
-  let t10034 := (t10017 - target.y)
-  let t10035 := (t10015 - target.x)
-  let t10038 := (t10028 - target.x)
-  let t10043 := (((t10035 * t10035) + (t10034 * t10034)) + (t10033 * t10033))
-  let t10094 := (target.y + (angleMod ((((884279719003555 : α) / (281474976710656 : α)) + t10017) - target.y)))
-  let t10096 := (target.z + (angleMod ((((884279719003555 : α) / (281474976710656 : α)) - t10019) - target.z)))
-  let t10097 := (t10096 - target.z)
-  let t10098 := (t10094 - target.y)
-  let t10102 := (((t10038 * t10038) + (t10098 * t10098)) + (t10097 * t10097))
-  if t10102 < t10043 then
-    ⟨t10028, t10094, t10096⟩
+  let t10013 := (target.x + (angleMod (xyzRot.x - target.x)))
+  let t10015 := (target.y + (angleMod (xyzRot.y - target.y)))
+  let t10017 := (target.z + (angleMod (xyzRot.z - target.z)))
+  let t10026 := (target.x + (angleMod ((((884279719003555 : α) / (281474976710656 : α)) + t10013) - target.x)))
+  let t10031 := (t10017 - target.z)
+  let t10032 := (t10015 - target.y)
+  let t10033 := (t10013 - target.x)
+  let t10036 := (t10026 - target.x)
+  let t10041 := (((t10033 * t10033) + (t10032 * t10032)) + (t10031 * t10031))
+  let t10092 := (target.y + (angleMod ((((884279719003555 : α) / (281474976710656 : α)) + t10015) - target.y)))
+  let t10094 := (target.z + (angleMod ((((884279719003555 : α) / (281474976710656 : α)) - t10017) - target.z)))
+  let t10095 := (t10094 - target.z)
+  let t10096 := (t10092 - target.y)
+  let t10100 := (((t10036 * t10036) + (t10096 * t10096)) + (t10095 * t10095))
+  if t10100 < t10041 then
+    ⟨t10026, t10092, t10094⟩
   else
-    ⟨t10015, t10017, t10019⟩
+    ⟨t10013, t10015, t10017⟩
 
 /-- extracted from the C++ template at T = Sym; 2 path(s) -/
 def Euler.makeNear_ZXZr {α : Type} [Add α] [Sub α] [Mul α] [Div α] [LT α] [DecidableLT α] [OfNat α 281474976710656] [OfNat α 884279719003555] (angleMod : α → α) (a : V3 α) (t : V3 α) : ((V3 α) × Int) :=
-  let t10056 := (t.x + (angleMod (a.x - t.x)))
-  let t10058 := (t.y + (angleMod (a.y - t.y)))
-  let t10060 := (t.z + (angleMod (a.z - t.z)))
-  let t10068 := (t.x + (angleMod ((((884279719003555 : α) / (281474976710656 : α)) + t10056) - t.x)))
-  let t10070 := (t.y + (angleMod ((((884279719003555 : α) / (281474976710656 : α)) - t10058) - t.y)))
-  let t10072 := (t.z + (angleMod ((((884279719003555 : α) / (281474976710656 : α)) + t10060) - t.z)))
-  let t10073 := (t10060 - t.z)
-  let t10074 := (t10058 - t.y)
-  let t10075 := (t10056 - t.x)
-  let t10076 := (t10072 - t.z)
-  let t10077 := (t10070 - t.y)
-  let t10078 := (t10068 - t.x)
-  let t10104 := (((t10075 * t10075) + (t10073 * t10073)) + (t10074 * t10074))
-  let t10106 := (((t10078 * t10078) + (t10076 * t10076)) + (t10077 * t10077))
-  if t10106 < t10104 then
-    (⟨t10068, t10070, t10072⟩, (16 : Int))
+  let t10054 := (t.x + (angleMod (a.x - t.x)))
+  let t10056 := (t.y + (angleMod (a.y - t.y)))
+  let t10058 := (t.z + (angleMod (a.z - t.z)))
+  let t10066 := (t.x + (angleMod ((((884279719003555 : α) / (281474976710656 : α)) + t10054) - t.x)))
+  let t10068 := (t.y + (angleMod ((((884279719003555 : α) / (281474976710656 : α)) - t10056) - t.y)))
+  let t10070 := (t.z + (angleMod ((((884279719003555 : α) / (281474976710656 : α)) + t10058) - t.z)))
+  let t10071 := (t10058 - t.z)
+  let t10072 := (t10056 - t.y)
+  let t10073 := (t10054 - t.x)
+  let t10074 := (t10070 - t.z)
+  let t10075 := (t10068 - t.y)
+  let t10076 := (t10066 - t.x)
+  let t10102 := (((t10073 * t10073) + (t10071 * t10071)) + (t10072 * t10072))
+  let t10104 := (((t10076 * t10076) + (t10074 * t10074)) + (t10075 * t10075))
+  if t10104 < t10102 then
+    (⟨t10066, t10068, t10070⟩, (16 : Int))
   else
-    (⟨t10056, t10058, t10060⟩, (16 : Int))
+    (⟨t10054, t10056, t10058⟩, (16 : Int))
 
 end ImathVerif.Gen
